@@ -1,5 +1,3504 @@
-//! (stub)
+//! OpenType layout + COLR hand-written code:
+//! `layout.rs` (Coverage / ClassDef / RangeRecord / Device / Subtables / FeatureParams),
+//! `layout/{script,feature,lookup_flag,closure}.rs`, `gsub.rs`, `gsub/closure.rs`, `gpos.rs`,
+//! `gpos/closure.rs`, `value_record.rs`, `colr.rs`, `colr/closure.rs`.
+//! Groups: `layout` (fn run), `layout.closure` (fn run_closure), `colr` (fn run_colr).
 use super::*;
-pub fn run(_ctx: &mut Ctx) {}
-pub fn run_closure(_ctx: &mut Ctx) {}
-pub fn run_colr(_ctx: &mut Ctx) {}
+use font_types::{GlyphId, GlyphId16, Tag};
+use read_fonts::collections::IntSet;
+use read_fonts::tables::colr::Colr;
+use read_fonts::tables::gpos::{self, Gpos, PositionSubtables, ValueFormat, ValueRecord};
+use read_fonts::tables::gsub::{self, Gsub, SubstitutionSubtables};
+use read_fonts::tables::layout::{self as lay, ClassDef, CoverageTable, Device, DeviceOrVariationIndex, LookupFlag};
+use read_fonts::tables::variations::DeltaSetIndex;
+use read_fonts::traversal::{FieldType, SomeRecord, SomeTable};
+use read_fonts::{FontData, FontRead, FontReadWithArgs};
+
+// ------------------------------------------------------------------------------------------------
+// byte-level builders
+
+/// a table with child tables behind offsets; `flat` lays the children out behind the parent and
+/// patches the offsets (which stay registered as fields)
+#[derive(Clone, Default)]
+pub struct T {
+    pub b: B,
+    kids: Vec<(usize, u8, T)>,
+}
+
+impl T {
+    fn new() -> T {
+        T::default()
+    }
+    fn of(b: B) -> T {
+        T { b, kids: vec![] }
+    }
+    fn off(&mut self, w: u8, kid: T) -> &mut Self {
+        let p = self.b.len();
+        match w {
+            2 => self.b.f16(0),
+            3 => self.b.f24(0),
+            _ => self.b.f32(0),
+        };
+        self.kids.push((p, w, kid));
+        self
+    }
+    fn off16(&mut self, kid: T) -> &mut Self {
+        self.off(2, kid)
+    }
+    fn off24(&mut self, kid: T) -> &mut Self {
+        self.off(3, kid)
+    }
+    fn off32(&mut self, kid: T) -> &mut Self {
+        self.off(4, kid)
+    }
+    /// nullable offset: the child or a (registered) null
+    fn opt16(&mut self, kid: Option<T>) -> &mut Self {
+        match kid {
+            Some(k) => self.off16(k),
+            None => {
+                self.b.f16(0);
+                self
+            }
+        }
+    }
+    fn flat(&self) -> B {
+        let mut out = self.b.clone();
+        for (pos, w, kid) in &self.kids {
+            let kb = kid.flat();
+            let at = out.append(&kb);
+            put_be(&mut out.v, *pos, *w, at as u64);
+        }
+        out
+    }
+}
+
+fn r16(b: &[u8], at: usize) -> Option<u16> {
+    b.get(at..at + 2).map(|s| u16::from_be_bytes([s[0], s[1]]))
+}
+
+fn cov1(gl: &[u16], reg: bool) -> B {
+    let mut b = B::new();
+    b.u16(1).f16(gl.len() as u16);
+    for g in gl {
+        if reg {
+            b.f16(*g);
+        } else {
+            b.u16(*g);
+        }
+    }
+    b
+}
+
+fn cov2(r: &[(u16, u16, u16)], reg: bool) -> B {
+    let mut b = B::new();
+    b.u16(2).f16(r.len() as u16);
+    for (s, e, i) in r {
+        if reg {
+            b.f16(*s).f16(*e).f16(*i);
+        } else {
+            b.u16(*s).u16(*e).u16(*i);
+        }
+    }
+    b
+}
+
+/// sorted distinct glyphs below `uni`
+fn sorted_glyphs(rng: &mut Rng, uni: u32, n: usize) -> Vec<u16> {
+    let mut v: Vec<u16> = (0..n).map(|_| rng.below(uni as u64) as u16).collect();
+    v.sort();
+    v.dedup();
+    v
+}
+
+/// sorted, non overlapping ranges below `uni` (mostly short)
+fn sorted_ranges(rng: &mut Rng, uni: u32, n: usize) -> Vec<(u16, u16)> {
+    let mut out = vec![];
+    let mut at = rng.below(4) as u32;
+    for _ in 0..n {
+        let len = if rng.chance(1, 12) { rng.below(300) as u32 } else { rng.below(5) as u32 };
+        let end = at + len;
+        if end >= uni {
+            break;
+        }
+        out.push((at as u16, end as u16));
+        at = end + 1 + rng.below(4) as u32;
+    }
+    out
+}
+
+/// well formed coverage over a small universe (both formats)
+fn cov_good(rng: &mut Rng, uni: u32, reg: bool) -> (B, Vec<u16>) {
+    if rng.chance(1, 2) {
+        let n = rng.below(9) as usize;
+        let g = sorted_glyphs(rng, uni, n);
+        (cov1(&g, reg), g)
+    } else {
+        let n = rng.below(6) as usize;
+        let r = sorted_ranges(rng, uni, n);
+        let mut recs = vec![];
+        let mut all = vec![];
+        let mut ix = 0u32;
+        for (s, e) in &r {
+            recs.push((*s, *e, ix as u16));
+            ix += (*e - *s) as u32 + 1;
+            all.extend(*s..=*e);
+        }
+        (cov2(&recs, reg), all)
+    }
+}
+
+/// coverage in every hostile-but-parsable shape
+fn cov_any(rng: &mut Rng, uni: u32, reg: bool) -> B {
+    match rng.below(12) {
+        0 | 1 | 2 => cov_good(rng, uni, reg).0,
+        3 => {
+            // unsorted / duplicated glyph array
+            let n = 1 + rng.below(8) as usize;
+            let g: Vec<u16> = (0..n).map(|_| rng.below(uni as u64) as u16).collect();
+            cov1(&g, reg)
+        }
+        4 => {
+            // overlapping, unsorted ranges
+            let n = 1 + rng.below(5) as usize;
+            let r: Vec<(u16, u16, u16)> = (0..n)
+                .map(|_| {
+                    let s = rng.below(uni as u64) as u16;
+                    (s, s.saturating_add(rng.below(6) as u16), rng.below(20) as u16)
+                })
+                .collect();
+            cov2(&r, reg)
+        }
+        5 => {
+            // reversed ranges (start > end)
+            let n = 1 + rng.below(4) as usize;
+            let r: Vec<(u16, u16, u16)> = (0..n)
+                .map(|k| {
+                    let s = rng.below(uni as u64) as u16;
+                    if k % 2 == 0 {
+                        (s.saturating_add(1 + rng.below(5) as u16), s, k as u16)
+                    } else {
+                        (s, s.saturating_add(2), k as u16)
+                    }
+                })
+                .collect();
+            cov2(&r, reg)
+        }
+        6 => {
+            // start_coverage_index + (gid - start) around 0xFFFF
+            let s = rng.below(uni as u64) as u16;
+            let len = 1 + rng.below(6) as u16;
+            let ix = 0xFFFFu16 - rng.below(len as u64 + 2) as u16;
+            cov2(&[(s, s.saturating_add(len), ix)], reg)
+        }
+        7 => {
+            // ranges / glyphs at the top of the glyph space
+            if rng.chance(1, 2) {
+                let s = 0xFFFF - rng.below(6) as u16;
+                cov2(&[(0, 2, 0), (s, 0xFFFF, 3)], reg)
+            } else {
+                cov1(&[0, 1, 0xFFFE, 0xFFFF], reg)
+            }
+        }
+        8 => {
+            if rng.chance(1, 2) {
+                cov1(&[], reg)
+            } else {
+                cov2(&[], reg)
+            }
+        }
+        9 => {
+            // one large range
+            let e = if rng.chance(1, 4) { 0xFFFF } else { 200 + rng.below(3000) as u16 };
+            cov2(&[(rng.below(3) as u16, e, rng.below(3) as u16)], reg)
+        }
+        10 => {
+            // adjacent / touching ranges with equal bounds
+            let s = rng.below(uni as u64) as u16;
+            cov2(&[(s, s, 0), (s, s, 1), (s.saturating_add(1), s.saturating_add(1), 2)], reg)
+        }
+        _ => {
+            // invalid format
+            let mut b = B::new();
+            b.u16(*rng.pick(&[0u16, 3, 0x100, 0xFFFF])).f16(1).u16(5).u16(6).u16(7);
+            b
+        }
+    }
+}
+
+fn class1(start: u16, vals: &[u16], reg: bool) -> B {
+    let mut b = B::new();
+    b.u16(1);
+    if reg {
+        b.f16(start);
+    } else {
+        b.u16(start);
+    }
+    b.f16(vals.len() as u16);
+    for v in vals {
+        b.u16(*v);
+    }
+    b
+}
+
+fn class2(r: &[(u16, u16, u16)], reg: bool) -> B {
+    let mut b = B::new();
+    b.u16(2).f16(r.len() as u16);
+    for (s, e, c) in r {
+        if reg {
+            b.f16(*s).f16(*e).u16(*c);
+        } else {
+            b.u16(*s).u16(*e).u16(*c);
+        }
+    }
+    b
+}
+
+/// well formed class def + its model (glyph, class) list
+fn class_good(rng: &mut Rng, uni: u32, n_classes: u16, reg: bool) -> (B, Vec<(u16, u16)>) {
+    if rng.chance(1, 2) {
+        let start = rng.below(uni as u64 / 2 + 1) as u16;
+        let n = rng.below(10) as usize;
+        let vals: Vec<u16> = (0..n).map(|_| rng.below(n_classes as u64 + 1) as u16).collect();
+        let model = vals.iter().enumerate().map(|(i, c)| (start + i as u16, *c)).collect();
+        (class1(start, &vals, reg), model)
+    } else {
+        let n = rng.below(6) as usize;
+        let r = sorted_ranges(rng, uni, n);
+        let mut recs = vec![];
+        let mut model = vec![];
+        for (s, e) in r {
+            let c = rng.below(n_classes as u64 + 1) as u16;
+            recs.push((s, e, c));
+            for g in s..=e {
+                model.push((g, c));
+            }
+        }
+        (class2(&recs, reg), model)
+    }
+}
+
+fn class_any(rng: &mut Rng, uni: u32, n_classes: u16, reg: bool) -> B {
+    match rng.below(9) {
+        0 | 1 | 2 => class_good(rng, uni, n_classes, reg).0,
+        3 => {
+            // start_glyph_id + glyph_count beyond 0xFFFF
+            let n = 1 + rng.below(8) as u16;
+            let start = 0xFFFFu16 - rng.below(n as u64 + 1) as u16;
+            let vals: Vec<u16> = (0..n).map(|k| k % (n_classes + 1)).collect();
+            class1(start, &vals, reg)
+        }
+        4 => {
+            // reversed + overlapping + unsorted ranges
+            let n = 1 + rng.below(5) as usize;
+            let r: Vec<(u16, u16, u16)> = (0..n)
+                .map(|k| {
+                    let s = rng.below(uni as u64) as u16;
+                    let e = if k % 2 == 0 { s.saturating_sub(rng.below(4) as u16) } else { s.saturating_add(rng.below(6) as u16) };
+                    (s, e, rng.below(n_classes as u64 + 2) as u16)
+                })
+                .collect();
+            class2(&r, reg)
+        }
+        5 => class2(&[(0, 1, 1), (0xFFFF - rng.below(4) as u16, 0xFFFF, 2)], reg),
+        6 => {
+            if rng.chance(1, 2) {
+                class1(rng.below(uni as u64) as u16, &[], reg)
+            } else {
+                class2(&[], reg)
+            }
+        }
+        7 => class2(&[(rng.below(3) as u16, if rng.chance(1, 4) { 0xFFFF } else { 500 + rng.below(2000) as u16 }, 1)], reg),
+        _ => {
+            let mut b = B::new();
+            b.u16(*rng.pick(&[0u16, 3, 0x200, 0xFFFF])).f16(1).f16(1).u16(1).u16(2);
+            b
+        }
+    }
+}
+
+/// pack deltas MSB first, `bits` per value
+fn pack_deltas(vals: &[i8], bits: u32) -> Vec<u16> {
+    let per = (16 / bits) as usize;
+    let mask = (1u32 << bits) - 1;
+    vals.chunks(per)
+        .map(|c| {
+            let mut w = 0u32;
+            for (i, v) in c.iter().enumerate() {
+                w |= ((*v as i32 as u32) & mask) << (16 - bits * (i as u32 + 1));
+            }
+            w as u16
+        })
+        .collect()
+}
+
+fn device(start: u16, end: u16, fmt: u16, words: &[u16]) -> B {
+    let mut b = B::new();
+    b.f16(start).f16(end).f16(fmt);
+    for w in words {
+        b.u16(*w);
+    }
+    b
+}
+
+fn variation_index(rng: &mut Rng) -> B {
+    let mut b = B::new();
+    b.u16(rng.next() as u16).u16(rng.next() as u16).f16(0x8000);
+    b
+}
+
+/// Device (formats 1..3, possibly hostile) or VariationIndex
+fn device_any(rng: &mut Rng) -> B {
+    let fmt = *rng.pick(&[1u16, 1, 2, 2, 3, 3, 0x8000, 0, 4, 0x7FFF, 0xFFFF]);
+    if fmt == 0x8000 && rng.chance(2, 3) {
+        return variation_index(rng);
+    }
+    let (start, end) = match rng.below(8) {
+        0 => {
+            // start_size > end_size
+            let e = rng.below(40) as u16;
+            (e + 1 + rng.below(5) as u16, e)
+        }
+        1 => (0, 0xFFFF),
+        2 => (0xFFFF, 0xFFFF),
+        3 => {
+            let s = 0xFFFF - rng.below(20) as u16;
+            (s, 0xFFFF)
+        }
+        _ => {
+            let s = rng.below(30) as u16;
+            (s, s + rng.below(20) as u16)
+        }
+    };
+    let n = (end as usize + 1).saturating_sub(start as usize);
+    let bits = match fmt {
+        1 => 2,
+        2 => 4,
+        3 => 8,
+        _ => 0,
+    };
+    let words: Vec<u16> = if bits == 0 || n > 200 {
+        (0..rng.below(5)).map(|_| rng.next() as u16).collect()
+    } else {
+        let vals: Vec<i8> = (0..n).map(|_| rng.next() as i8 >> (8 - bits)).collect();
+        let mut w = pack_deltas(&vals, bits);
+        if rng.chance(1, 6) {
+            w.pop(); // delta_value array one word short
+        }
+        w
+    };
+    device(start, end, fmt, &words)
+}
+
+// ------------------------------------------------------------------------------------------------
+// walks: Coverage / ClassDef / Device
+
+const ITER_BUDGET: usize = 300_000;
+
+fn gset(gids: &[u32]) -> IntSet<GlyphId> {
+    gids.iter().map(|g| GlyphId::new(*g)).collect()
+}
+
+/// glyph sets around the values a table mentions
+fn glyph_sets(vals: &[u32]) -> Vec<IntSet<GlyphId>> {
+    let mut sets = vec![IntSet::empty()];
+    sets.push(gset(&vals.iter().take(3).copied().collect::<Vec<_>>()));
+    if let Some(v) = vals.first() {
+        sets.push(gset(&[v.wrapping_add(1)]));
+        sets.push(gset(&[v.wrapping_sub(1), 0x1_0000, u32::MAX]));
+    }
+    if let Some(v) = vals.last() {
+        sets.push(gset(&[*v]));
+    }
+    let mut full = IntSet::empty();
+    full.insert_range(GlyphId::new(0)..=GlyphId::new(0xFFFF));
+    sets.push(full);
+    // many glyphs, none of them in the table (the `glyphs.len() * num_bits` branch choice)
+    let mut many = IntSet::empty();
+    many.insert_range(GlyphId::new(0x1_0000)..=GlyphId::new(0x1_0400));
+    sets.push(many);
+    sets
+}
+
+/// (format, record values, independently computed population)
+fn cov_raw(bytes: &[u8]) -> (u16, Vec<u32>, usize) {
+    let fmt = r16(bytes, 0).unwrap_or(0);
+    let n = r16(bytes, 2).unwrap_or(0) as usize;
+    let mut vals = vec![];
+    let mut pop = 0usize;
+    match fmt {
+        1 => {
+            pop = n;
+            for k in 0..n.min(10) {
+                if let Some(g) = r16(bytes, 4 + 2 * k) {
+                    vals.push(g as u32);
+                }
+            }
+        }
+        2 => {
+            for k in 0..n {
+                let (Some(s), Some(e)) = (r16(bytes, 4 + 6 * k), r16(bytes, 6 + 6 * k)) else { break };
+                if e >= s {
+                    pop += (e - s) as usize + 1;
+                }
+                if k < 6 {
+                    vals.push(s as u32);
+                    vals.push(e as u32);
+                }
+            }
+        }
+        _ => {}
+    }
+    (fmt, vals, pop)
+}
+
+fn note_opt16(o: &mut Obs, v: Option<u16>) {
+    o.note(v.map(|x| x as u64 + 1).unwrap_or(0));
+}
+
+fn walk_cov_table(cov: &CoverageTable, bytes: &[u8], o: &mut Obs) {
+    let (_, vals, pop) = cov_raw(bytes);
+    let mut gids: Vec<u32> = edge16(&vals).into_iter().map(|g| g as u32).collect();
+    gids.extend([0x1_0000, 0x1_0001, 0x7FFF_FFFF, u32::MAX]);
+    for g in &gids {
+        note_opt16(o, cov.get(GlyphId::new(*g)));
+    }
+    for g in gids.iter().take(8) {
+        note_opt16(o, cov.get(GlyphId16::new(*g as u16)));
+    }
+    let cap = pop.min(ITER_BUDGET);
+    o.drain("coverage.iter", cap + 1, cov.iter().take(ITER_BUDGET), |o, g| o.note(g.to_u16() as u64));
+    let sets = glyph_sets(&vals);
+    for s in &sets {
+        o.note(cov.intersects(s) as u64);
+    }
+    match cov {
+        CoverageTable::Format1(t) => {
+            o.note(t.population() as u64);
+            for g in gids.iter().take(24) {
+                note_opt16(o, t.get(GlyphId::new(*g)));
+            }
+            for s in &sets {
+                o.note(t.intersects(s) as u64);
+            }
+        }
+        CoverageTable::Format2(t) => {
+            o.note(t.population() as u64);
+            for g in gids.iter().take(24) {
+                note_opt16(o, t.get(GlyphId::new(*g)));
+            }
+            for s in &sets {
+                o.note(t.intersects(s) as u64);
+            }
+            for rec in t.range_records().iter().take(6) {
+                let (s, e) = (rec.start_glyph_id().to_u16() as usize, rec.end_glyph_id().to_u16() as usize);
+                let p = if e >= s { e - s + 1 } else { 0 };
+                o.note(rec.population() as u64);
+                o.drain("range_record.iter", p.min(ITER_BUDGET) + 1, rec.iter().take(ITER_BUDGET), |o, g| o.note(g.to_u16() as u64));
+                for s in sets.iter().take(5) {
+                    o.note(rec.intersects(s) as u64);
+                }
+            }
+        }
+    }
+}
+
+fn walk_coverage(bytes: &[u8], o: &mut Obs) {
+    let r = CoverageTable::read(FontData::new(bytes));
+    if o.res(&r) {
+        walk_cov_table(&r.unwrap(), bytes, o);
+    }
+    // the concrete formats directly (no format check in front of the hand-written methods)
+    if let Ok(t) = lay::CoverageFormat1::read(FontData::new(bytes)) {
+        o.note(t.population() as u64);
+        note_opt16(o, t.get(GlyphId::new(r16(bytes, 4).unwrap_or(0) as u32)));
+    }
+    if let Ok(t) = lay::CoverageFormat2::read(FontData::new(bytes)) {
+        o.note(t.population() as u64);
+        note_opt16(o, t.get(GlyphId::new(r16(bytes, 4).unwrap_or(0) as u32)));
+    }
+}
+
+/// `intersects` with inverted (almost full) glyph sets: `glyphs.len() as u32 * num_bits`
+fn walk_coverage_inverted(bytes: &[u8], o: &mut Obs) {
+    let Ok(cov) = CoverageTable::read(FontData::new(bytes)) else { return };
+    let mut s: IntSet<GlyphId> = IntSet::all();
+    s.remove(GlyphId::new(0x2_0000));
+    o.note(cov.intersects(&s) as u64);
+}
+
+fn class_raw(bytes: &[u8]) -> (Vec<u32>, usize) {
+    let fmt = r16(bytes, 0).unwrap_or(0);
+    let mut vals = vec![];
+    let mut pop = 0usize;
+    match fmt {
+        1 => {
+            let s = r16(bytes, 2).unwrap_or(0) as u32;
+            let n = r16(bytes, 4).unwrap_or(0) as u32;
+            pop = n as usize;
+            vals.extend([s, s + n]);
+        }
+        2 => {
+            let n = r16(bytes, 2).unwrap_or(0) as usize;
+            for k in 0..n {
+                let (Some(s), Some(e)) = (r16(bytes, 4 + 6 * k), r16(bytes, 6 + 6 * k)) else { break };
+                if e >= s {
+                    pop += (e - s) as usize + 1;
+                }
+                if k < 6 {
+                    vals.push(s as u32);
+                    vals.push(e as u32);
+                }
+            }
+        }
+        _ => {}
+    }
+    (vals, pop)
+}
+
+fn walk_class_table(cd: &ClassDef, bytes: &[u8], o: &mut Obs) {
+    let (vals, pop) = class_raw(bytes);
+    let gids = edge16(&vals);
+    for g in &gids {
+        o.note(cd.get(GlyphId16::new(*g)) as u64);
+    }
+    o.note(cd.population() as u64);
+    let cap = pop.min(ITER_BUDGET);
+    o.drain("classdef.iter", cap + 1, cd.iter().take(ITER_BUDGET), |o, (g, c)| {
+        o.note(g.to_u16() as u64);
+        o.note(c as u64);
+    });
+    match cd {
+        ClassDef::Format1(t) => {
+            o.note(t.population() as u64);
+            for g in &gids {
+                o.note(t.get(GlyphId16::new(*g)) as u64);
+            }
+            o.drain("classdef1.iter", cap + 1, t.iter().take(ITER_BUDGET), |o, (g, c)| o.note(((g.to_u16() as u64) << 16) | c as u64));
+        }
+        ClassDef::Format2(t) => {
+            o.note(t.population() as u64);
+            for g in &gids {
+                o.note(t.get(GlyphId16::new(*g)) as u64);
+            }
+            o.drain("classdef2.iter", cap + 1, t.iter().take(ITER_BUDGET), |o, (g, c)| o.note(((g.to_u16() as u64) << 16) | c as u64));
+            for rec in t.class_range_records().iter().take(8) {
+                o.note(rec.population() as u64);
+            }
+        }
+    }
+}
+
+fn walk_classdef(bytes: &[u8], o: &mut Obs) {
+    let r = ClassDef::read(FontData::new(bytes));
+    if o.res(&r) {
+        walk_class_table(&r.unwrap(), bytes, o);
+    }
+}
+
+fn walk_device_table(d: &Device, len: usize, o: &mut Obs) {
+    o.note(d.start_size() as u64);
+    o.note(d.end_size() as u64);
+    o.note(i64::from(d.delta_format()) as u64);
+    o.drain("device.iter", (len / 2) * 8 + 1, d.iter(), |o, v| o.note(v as u8 as u64));
+}
+
+fn walk_dev_or_var(r: &DeviceOrVariationIndex, len: usize, o: &mut Obs) {
+    match r {
+        DeviceOrVariationIndex::Device(d) => walk_device_table(d, len, o),
+        DeviceOrVariationIndex::VariationIndex(v) => {
+            let ix: DeltaSetIndex = v.clone().into();
+            o.note(ix.outer as u64);
+            o.note(ix.inner as u64);
+        }
+    }
+}
+
+fn walk_device(bytes: &[u8], o: &mut Obs) {
+    let fd = FontData::new(bytes);
+    let r = Device::read(fd);
+    if o.res(&r) {
+        walk_device_table(&r.unwrap(), bytes.len(), o);
+    }
+    let r = DeviceOrVariationIndex::read(fd);
+    if o.res(&r) {
+        walk_dev_or_var(&r.unwrap(), bytes.len(), o);
+    }
+    let r = lay::VariationIndex::read(fd);
+    if o.res(&r) {
+        let ix: DeltaSetIndex = r.unwrap().into();
+        o.note(ix.outer as u64);
+        o.note(ix.inner as u64);
+    }
+}
+
+// ------------------------------------------------------------------------------------------------
+// model oracles (well formed inputs; the expected value comes from the generator)
+
+fn model(ctx: &mut Ctx, name: &str, input: String, f: impl FnOnce() -> Result<(), String>) {
+    PROGRESS.fetch_add(1, Ordering::Relaxed);
+    match catch(f) {
+        Ok(Ok(())) => ctx.oracle(name, true, String::new, String::new),
+        Ok(Err(e)) => ctx.oracle(name, false, || input.clone(), || e.clone()),
+        Err(m) => ctx.oracle("no-panic", false, || input.clone(), || format!("panicked: {m}")),
+    }
+}
+
+/// one call under its own oracle name `no-panic.<name>` (minimal reproducers of known sites, so that
+/// each site stays visible next to the mass of mutated inputs)
+fn probe(ctx: &mut Ctx, name: &str, bytes: &[u8], f: &dyn Fn(&[u8], &mut Obs)) {
+    PROGRESS.fetch_add(1, Ordering::Relaxed);
+    if std::env::var_os("C01_PROBE_DUMP").is_some() {
+        eprintln!("PROBE {name} {}", hex(bytes));
+    }
+    let mut o = Obs::new();
+    let msg = catch(|| f(bytes, &mut o)).err();
+    ctx.oracle(&format!("no-panic.{name}"), msg.is_none(), || format!("{name} {}", hex(bytes)), || format!("panicked: {}", msg.clone().unwrap_or_default()));
+}
+
+fn coverage_model(ctx: &mut Ctx) {
+    let uni = *ctx.rng.pick(&[12u32, 40, 400, 0x1_0000]);
+    let (b, glyphs) = cov_good(&mut ctx.rng, uni, false);
+    let mut probe_sets: Vec<Vec<u32>> = vec![vec![], vec![0x1_0000]];
+    for _ in 0..4 {
+        let n = 1 + ctx.rng.below(4);
+        probe_sets.push((0..n).map(|_| ctx.rng.below(uni as u64 + 3) as u32).collect());
+    }
+    if let Some(g) = glyphs.last() {
+        probe_sets.push(vec![*g as u32]);
+        probe_sets.push(vec![*g as u32 + 1]);
+    }
+    let input = format!("coverage-model {}", hex(&b.v));
+    model(ctx, "coverage-model", input, || {
+        let cov = CoverageTable::read(FontData::new(&b.v)).map_err(|e| format!("read {e:?}"))?;
+        let vals: Vec<u32> = glyphs.iter().map(|g| *g as u32).collect();
+        for g in edge16(&vals) {
+            let want = glyphs.iter().position(|x| *x == g).map(|i| i as u16);
+            let got = cov.get(GlyphId16::new(g));
+            if got != want {
+                return Err(format!("get({g}) = {got:?}, expected {want:?}"));
+            }
+        }
+        if cov.get(GlyphId::new(0x1_0000 + glyphs.first().copied().unwrap_or(0) as u32)).is_some() {
+            return Err("get(gid > 0xFFFF) is Some".into());
+        }
+        let it: Vec<u16> = cov.iter().take(glyphs.len() + 2).map(|g| g.to_u16()).collect();
+        if it != glyphs {
+            return Err(format!("iter {it:?} expected {glyphs:?}"));
+        }
+        let pop = match &cov {
+            CoverageTable::Format1(t) => t.population(),
+            CoverageTable::Format2(t) => t.population(),
+        };
+        if pop != glyphs.len() {
+            return Err(format!("population {pop} expected {}", glyphs.len()));
+        }
+        for ps in &probe_sets {
+            let want = ps.iter().any(|g| *g <= 0xFFFF && glyphs.contains(&(*g as u16)));
+            let got = cov.intersects(&gset(ps));
+            if got != want {
+                return Err(format!("intersects({ps:?}) = {got}, expected {want}"));
+            }
+        }
+        Ok(())
+    });
+}
+
+fn classdef_model(ctx: &mut Ctx) {
+    let uni = *ctx.rng.pick(&[12u32, 40, 400, 0xFFF0]);
+    let (b, m) = class_good(&mut ctx.rng, uni, 4, false);
+    let input = format!("classdef-model {}", hex(&b.v));
+    model(ctx, "classdef-model", input, || {
+        let cd = ClassDef::read(FontData::new(&b.v)).map_err(|e| format!("read {e:?}"))?;
+        let vals: Vec<u32> = m.iter().map(|g| g.0 as u32).collect();
+        for g in edge16(&vals) {
+            let want = m.iter().find(|x| x.0 == g).map(|x| x.1).unwrap_or(0);
+            let got = cd.get(GlyphId16::new(g));
+            if got != want {
+                return Err(format!("get({g}) = {got}, expected {want}"));
+            }
+        }
+        let it: Vec<(u16, u16)> = cd.iter().take(m.len() + 2).map(|(g, c)| (g.to_u16(), c)).collect();
+        if it != m {
+            return Err(format!("iter {it:?} expected {m:?}"));
+        }
+        if cd.population() != m.len() {
+            return Err(format!("population {} expected {}", cd.population(), m.len()));
+        }
+        Ok(())
+    });
+}
+
+fn device_model(ctx: &mut Ctx) {
+    let bits = *ctx.rng.pick(&[2u32, 4, 8]);
+    let start = match ctx.rng.below(4) {
+        0 => 0,
+        1 => 0xFFFF - ctx.rng.below(30) as u16,
+        _ => ctx.rng.below(200) as u16,
+    };
+    let n = 1 + ctx.rng.below(40.min(0x1_0000 - start as u64)) as usize;
+    let end = (start as usize + n - 1) as u16;
+    let vals: Vec<i8> = (0..n).map(|_| ctx.rng.next() as i8 >> (8 - bits)).collect();
+    let words = pack_deltas(&vals, bits);
+    let fmt = match bits {
+        2 => 1,
+        4 => 2,
+        _ => 3,
+    };
+    let b = device(start, end, fmt, &words);
+    let input = format!("device-model {}", hex(&b.v));
+    model(ctx, "device-model", input, || {
+        let d = Device::read(FontData::new(&b.v)).map_err(|e| format!("read {e:?}"))?;
+        let got: Vec<i8> = d.iter().take(n + 9).collect();
+        if got != vals {
+            return Err(format!("iter {got:?} expected {vals:?}"));
+        }
+        Ok(())
+    });
+}
+
+/// explicit expected decoding under its own oracle name
+fn device_expect(ctx: &mut Ctx, name: &str, start: u16, end: u16, fmt: u16, words: &[u16], want: &[i8]) {
+    let b = device(start, end, fmt, words);
+    let input = format!("{name} {}", hex(&b.v));
+    model(ctx, &format!("device-model.{name}"), input, || {
+        let d = Device::read(FontData::new(&b.v)).map_err(|e| format!("read {e:?}"))?;
+        let got: Vec<i8> = d.iter().take(want.len() + 9).collect();
+        if got != want {
+            return Err(format!("iter {got:?} expected {want:?}"));
+        }
+        Ok(())
+    });
+}
+
+pub fn run(ctx: &mut Ctx) {
+    let k = if ctx.thorough { 6 } else { 1 };
+    // Coverage
+    for round in 0..90 * k {
+        let uni = *ctx.rng.pick(&[8u32, 40, 300, 0x1_0000]);
+        let b = cov_any(&mut ctx.rng, uni, round % 3 == 0);
+        ctx.count(&format!("coverage.format{}", r16(&b.v, 0).unwrap_or(0).min(3)));
+        ctx.drive("coverage", &b, &walk_coverage);
+    }
+    for _ in 0..200 * k {
+        coverage_model(ctx);
+    }
+    ctx.drive_random("coverage", 500 * k, 40, &walk_coverage);
+    // known-site probes (minimal inputs, one oracle name per site)
+    probe(ctx, "coverage1.intersects.inverted-set", &cov1(&[3, 9], false).v, &walk_coverage_inverted);
+    probe(ctx, "coverage2.intersects.inverted-set", &cov2(&[(3, 4, 0), (8, 9, 2)], false).v, &walk_coverage_inverted);
+    probe(ctx, "coverage1.intersects.inverted-set.single", &cov1(&[7], false).v, &walk_coverage_inverted);
+    probe(ctx, "device.iter.start-gt-end", &device(1, 0, 1, &[]).v, &walk_device);
+    probe(ctx, "device.iter.minus128", &device(0, 1, 3, &[0x0080]).v, &walk_device);
+    device_expect(ctx, "negative-delta-2bit", 0, 2, 1, &[0x8800], &[-2, 0, -2]);
+    device_expect(ctx, "negative-delta-4bit", 0, 2, 2, &[0xBB80], &[-5, -5, -8]);
+    device_expect(ctx, "negative-delta-8bit", 0, 1, 3, &[0x8101], &[-127, 1]);
+    device_expect(ctx, "positive-deltas", 0, 3, 2, &[0x1234], &[1, 2, 3, 4]);
+    device_expect(ctx, "end-size-ffff", 0xFFFF, 0xFFFF, 1, &[0x4000], &[1]);
+    // ClassDef
+    for round in 0..70 * k {
+        let uni = *ctx.rng.pick(&[8u32, 40, 300, 0xFFF0]);
+        let b = class_any(&mut ctx.rng, uni, 3, round % 3 == 0);
+        ctx.count(&format!("classdef.format{}", r16(&b.v, 0).unwrap_or(0).min(3)));
+        ctx.drive("classdef", &b, &walk_classdef);
+    }
+    for _ in 0..200 * k {
+        classdef_model(ctx);
+    }
+    ctx.drive_random("classdef", 500 * k, 40, &walk_classdef);
+    // Device / VariationIndex
+    for _ in 0..90 * k {
+        let b = device_any(&mut ctx.rng);
+        ctx.count(&format!("device.format{:x}", r16(&b.v, 4).unwrap_or(0)));
+        ctx.drive("device", &b, &walk_device);
+    }
+    // exhaustive: every format word class x small size ranges x data lengths
+    for fmt in [0u16, 1, 2, 3, 4, 0x8000, 0x8001, 0xFFFF] {
+        for start in [0u16, 1, 7, 8, 9, 0xFFFE, 0xFFFF] {
+            for d in 0..=17u16 {
+                for short in [0usize, 1] {
+                    let end = start.saturating_add(d);
+                    let n = (end - start) as usize + 1;
+                    let per = match fmt {
+                        1 => 8,
+                        2 => 4,
+                        3 => 2,
+                        _ => 1,
+                    };
+                    let words: Vec<u16> = (0..((n + per - 1) / per).saturating_sub(short)).map(|_| ctx.rng.next() as u16).collect();
+                    ctx.call("device", &device(start, end, fmt, &words).v, &walk_device);
+                }
+            }
+        }
+    }
+    for _ in 0..300 * k {
+        device_model(ctx);
+    }
+    ctx.drive_random("device", 400 * k, 24, &walk_device);
+    run_layout_tables(ctx, k);
+}
+
+
+// ------------------------------------------------------------------------------------------------
+// builders: script / feature / lookup lists, GSUB and GPOS subtables
+
+const SCRIPT_TAGS: [&[u8; 4]; 10] = [b"DFLT", b"arab", b"cyrl", b"dflt", b"grek", b"latn", b"zzzz", b"    ", b"AAAA", b"thai"];
+const LANG_TAGS: [&[u8; 4]; 6] = [b"DEU ", b"ENG ", b"TRK ", b"dflt", b"ZZZZ", b"AAA "];
+const FEATURE_TAGS: [&[u8; 4]; 10] = [b"size", b"ss01", b"ss20", b"cv01", b"cv99", b"liga", b"kern", b"calt", b"aalt", b"ssXX"];
+
+fn tag32(t: &[u8; 4]) -> u32 {
+    u32::from_be_bytes(*t)
+}
+
+fn lang_sys(rng: &mut Rng, n_features: u16) -> T {
+    let mut t = T::new();
+    t.b.u16(0);
+    let req = match rng.below(4) {
+        0 => 0xFFFF,
+        1 => n_features.wrapping_add(rng.below(2) as u16),
+        _ => rng.below(n_features as u64 + 1) as u16,
+    };
+    t.b.f16(req);
+    let n = rng.below(5) as u16;
+    t.b.f16(n);
+    for _ in 0..n {
+        // feature indices, some beyond the list
+        let ix = if rng.chance(1, 6) { n_features + rng.below(3) as u16 } else { rng.below(n_features as u64 + 1) as u16 };
+        t.b.f16(ix);
+    }
+    t
+}
+
+fn script(rng: &mut Rng, n_features: u16, sorted: bool) -> T {
+    let mut t = T::new();
+    let dflt = if rng.chance(2, 3) { Some(lang_sys(rng, n_features)) } else { None };
+    t.opt16(dflt);
+    let mut tags: Vec<u32> = (0..rng.below(4)).map(|_| tag32(*rng.pick(&LANG_TAGS[..]))).collect();
+    if sorted {
+        tags.sort();
+        tags.dedup();
+    }
+    t.b.f16(tags.len() as u16);
+    for tg in tags {
+        t.b.u32(tg);
+        let ls = lang_sys(rng, n_features);
+        t.off16(ls);
+    }
+    t
+}
+
+fn script_list(rng: &mut Rng, n_features: u16, sorted: bool) -> (T, Vec<u32>) {
+    let mut tags: Vec<u32> = (0..rng.below(5)).map(|_| tag32(*rng.pick(&SCRIPT_TAGS[..]))).collect();
+    if sorted {
+        tags.sort();
+        tags.dedup();
+    }
+    let mut t = T::new();
+    t.b.f16(tags.len() as u16);
+    for tg in &tags {
+        t.b.u32(*tg);
+        let s = script(rng, n_features, sorted);
+        t.off16(s);
+    }
+    (t, tags)
+}
+
+fn feature_params(rng: &mut Rng, tag: u32) -> B {
+    let mut b = B::new();
+    let t = tag.to_be_bytes();
+    if &t == b"size" {
+        for _ in 0..5 {
+            b.u16(rng.below(300) as u16);
+        }
+    } else if &t[..2] == b"ss" {
+        b.u16(0).u16(256 + rng.below(10) as u16);
+    } else if &t[..2] == b"cv" {
+        b.u16(0).u16(256).u16(257).u16(258).u16(rng.below(3) as u16).u16(259);
+        let n = rng.below(4) as u16;
+        b.f16(n);
+        for _ in 0..n {
+            b.u24(rng.below(0x11_0000) as u32);
+        }
+    } else {
+        b.bytes(&rng.bytes(6));
+    }
+    b
+}
+
+fn feature(rng: &mut Rng, tag: u32, n_lookups: u16) -> T {
+    let mut t = T::new();
+    let params = if rng.chance(1, 2) { Some(T::of(feature_params(rng, tag))) } else { None };
+    t.opt16(params);
+    let n = rng.below(4) as u16;
+    t.b.f16(n);
+    for _ in 0..n {
+        // lookup indices, some beyond the list
+        let ix = if rng.chance(1, 8) { n_lookups + rng.below(3) as u16 } else { rng.below(n_lookups as u64 + 1) as u16 };
+        t.b.f16(ix);
+    }
+    t
+}
+
+fn feature_list(rng: &mut Rng, n: u16, n_lookups: u16) -> (T, Vec<u32>) {
+    let tags: Vec<u32> = (0..n).map(|_| tag32(*rng.pick(&FEATURE_TAGS[..]))).collect();
+    let mut t = T::new();
+    t.b.f16(n);
+    for tg in &tags {
+        t.b.u32(*tg);
+        let f = feature(rng, *tg, n_lookups);
+        t.off16(f);
+    }
+    (t, tags)
+}
+
+fn condition(rng: &mut Rng, depth: u32) -> T {
+    let mut t = T::new();
+    let fmt = if depth >= 2 { 1 + rng.below(2) } else { 1 + rng.below(5) };
+    match fmt {
+        1 => {
+            t.b.u16(1).f16(rng.below(4) as u16).i16(rng.range(-0x4000, 0x4000) as i16).i16(rng.range(-0x4000, 0x4000) as i16);
+        }
+        2 => {
+            t.b.u16(2).i16(rng.next() as i16).u32(rng.next() as u32 >> rng.below(32));
+        }
+        3 | 4 => {
+            let n = rng.below(3) as u8;
+            t.b.u16(fmt as u16).f8(n);
+            for _ in 0..n {
+                let c = condition(rng, depth + 1);
+                t.off24(c);
+            }
+        }
+        _ => {
+            t.b.u16(5);
+            let c = condition(rng, depth + 1);
+            t.off24(c);
+        }
+    }
+    t
+}
+
+fn feature_variations(rng: &mut Rng, n_features: u16, n_lookups: u16) -> T {
+    let mut t = T::new();
+    t.b.u16(1).u16(0);
+    let n = rng.below(3) as u32;
+    t.b.f32(n);
+    for _ in 0..n {
+        if rng.chance(3, 4) {
+            let mut cs = T::new();
+            let nc = rng.below(3) as u16;
+            cs.b.f16(nc);
+            for _ in 0..nc {
+                let c = condition(rng, 0);
+                cs.off32(c);
+            }
+            t.off32(cs);
+        } else {
+            t.b.f32(0);
+        }
+        if rng.chance(3, 4) {
+            let mut fs = T::new();
+            fs.b.u16(1).u16(0);
+            let ns = rng.below(3) as u16;
+            fs.b.f16(ns);
+            for _ in 0..ns {
+                fs.b.f16(rng.below(n_features as u64 + 2) as u16);
+                let f = feature(rng, tag32(b"NULL"), n_lookups);
+                fs.off32(f);
+            }
+            t.off32(fs);
+        } else {
+            t.b.f32(0);
+        }
+    }
+    t
+}
+
+/// lookup header around subtables (`mark_set`: USE_MARK_FILTERING_SET + trailing field)
+fn lookup(rng: &mut Rng, ty: u16, subs: Vec<T>, reg_type: bool) -> T {
+    let mut t = T::new();
+    if reg_type {
+        t.b.f16(ty);
+    } else {
+        t.b.u16(ty);
+    }
+    let mut flag = (rng.below(16) as u16) | ((rng.below(3) as u16) << 8);
+    let with_set = rng.chance(1, 3);
+    if with_set {
+        flag |= 0x10;
+    }
+    if rng.chance(1, 8) {
+        flag |= 0xE0 & rng.next() as u16;
+    }
+    t.b.f16(flag);
+    t.b.f16(subs.len() as u16);
+    for s in subs {
+        t.off16(s);
+    }
+    if with_set {
+        t.b.u16(rng.below(4) as u16);
+    }
+    t
+}
+
+/// (sequence_index, lookup_list_index) records; the sequence index is sometimes beyond the input
+fn seq_lookup_records(rng: &mut Rng, b: &mut B, input_len: u16, n_lookups: u16) {
+    let n = rng.below(3) as u16;
+    b.f16(n);
+    seq_lookup_body(rng, b, n, input_len, n_lookups);
+}
+
+fn seq_lookup_body(rng: &mut Rng, b: &mut B, n: u16, input_len: u16, n_lookups: u16) {
+    seq_lookup_body_h(rng, b, n, input_len, n_lookups, 10)
+}
+
+/// `den`: one in `den / 3` sequence indices is beyond the input sequence
+fn seq_lookup_body_h(rng: &mut Rng, b: &mut B, n: u16, input_len: u16, n_lookups: u16, den: u64) {
+    for _ in 0..n {
+        let si = match rng.below(den) {
+            0 => input_len + 1,
+            1 => input_len + 2 + rng.below(3) as u16,
+            2 => 0xFFFF,
+            _ => rng.below(input_len as u64 + 1) as u16,
+        };
+        let li = match rng.below(den) {
+            0 => n_lookups,
+            1 => 0xFFFF,
+            _ => rng.below(n_lookups.max(1) as u64) as u16,
+        };
+        b.f16(si).f16(li);
+    }
+}
+
+fn glyph_seq(rng: &mut Rng, uni: u32, b: &mut B, n: u16) {
+    for _ in 0..n {
+        b.u16(rng.below(uni as u64) as u16);
+    }
+}
+
+struct Lk {
+    uni: u32,
+    n_lookups: u16,
+    n_classes: u16,
+    /// closure tables: one in `seq_den / 3` sequence indices lies beyond the input sequence
+    seq_den: u64,
+}
+
+fn gsub_single(rng: &mut Rng, k: &Lk) -> T {
+    let mut t = T::new();
+    if rng.chance(1, 2) {
+        t.b.u16(1);
+        t.off16(T::of(cov_any(rng, k.uni, false)));
+        t.b.i16(*rng.pick(&[1i16, -1, 5, 100, -100, i16::MAX, i16::MIN, 0]));
+    } else {
+        t.b.u16(2);
+        t.off16(T::of(cov_any(rng, k.uni, false)));
+        let n = rng.below(8) as u16;
+        t.b.f16(n);
+        glyph_seq(rng, k.uni + 8, &mut t.b, n);
+    }
+    t
+}
+
+/// Multiple / Alternate (same layout): coverage + offsets to glyph sequences
+fn gsub_multiple(rng: &mut Rng, k: &Lk) -> T {
+    let mut t = T::new();
+    t.b.u16(1);
+    t.off16(T::of(cov_any(rng, k.uni, false)));
+    let n = rng.below(5) as u16;
+    t.b.f16(n);
+    for _ in 0..n {
+        let mut s = T::new();
+        let m = if rng.chance(1, 10) { 40 + rng.below(60) as u16 } else { rng.below(4) as u16 };
+        s.b.f16(m);
+        glyph_seq(rng, k.uni + 16, &mut s.b, m);
+        t.off16(s);
+    }
+    t
+}
+
+fn gsub_ligature(rng: &mut Rng, k: &Lk) -> T {
+    let mut t = T::new();
+    t.b.u16(1);
+    t.off16(T::of(cov_any(rng, k.uni, false)));
+    let n = rng.below(4) as u16;
+    t.b.f16(n);
+    for _ in 0..n {
+        let mut set = T::new();
+        let m = rng.below(3) as u16;
+        set.b.f16(m);
+        for _ in 0..m {
+            let mut lig = T::new();
+            lig.b.u16(rng.below(k.uni as u64 + 30) as u16);
+            // component_count 0 (count - 1 saturates), 1, n
+            let cc = rng.below(4) as u16;
+            lig.b.f16(cc);
+            glyph_seq(rng, k.uni, &mut lig.b, cc.saturating_sub(1));
+            set.off16(lig);
+        }
+        t.off16(set);
+    }
+    t
+}
+
+fn ctx_format1(rng: &mut Rng, k: &Lk, chained: bool, classes: bool) -> T {
+    let mut t = T::new();
+    t.b.u16(if classes { 2 } else { 1 });
+    t.off16(T::of(cov_any(rng, k.uni, false)));
+    if classes {
+        let n_defs = if chained { 3 } else { 1 };
+        for _ in 0..n_defs {
+            t.off16(T::of(class_any(rng, k.uni, k.n_classes, false)));
+        }
+    }
+    let n = rng.below(4) as u16;
+    t.b.f16(n);
+    let seq_uni = if classes { k.n_classes as u32 + 2 } else { k.uni };
+    for _ in 0..n {
+        if rng.chance(1, 5) {
+            t.b.f16(0);
+            continue;
+        }
+        let mut set = T::new();
+        let m = rng.below(3) as u16;
+        set.b.f16(m);
+        for _ in 0..m {
+            let mut rule = T::new();
+            if chained {
+                let nb = rng.below(3) as u16;
+                rule.b.f16(nb);
+                glyph_seq(rng, seq_uni, &mut rule.b, nb);
+                let gc = rng.below(4) as u16;
+                rule.b.f16(gc);
+                glyph_seq(rng, seq_uni, &mut rule.b, gc.saturating_sub(1));
+                let na = rng.below(3) as u16;
+                rule.b.f16(na);
+                glyph_seq(rng, seq_uni, &mut rule.b, na);
+                seq_lookup_records(rng, &mut rule.b, gc.saturating_sub(1), k.n_lookups);
+            } else {
+                let gc = rng.below(4) as u16;
+                let nl = rng.below(3) as u16;
+                rule.b.f16(gc).f16(nl);
+                glyph_seq(rng, seq_uni, &mut rule.b, gc.saturating_sub(1));
+                seq_lookup_body(rng, &mut rule.b, nl, gc.saturating_sub(1), k.n_lookups);
+            }
+            set.off16(rule);
+        }
+        t.off16(set);
+    }
+    t
+}
+
+fn ctx_format3(rng: &mut Rng, k: &Lk, chained: bool) -> T {
+    let mut t = T::new();
+    t.b.u16(3);
+    if chained {
+        let nb = rng.below(3) as u16;
+        t.b.f16(nb);
+        for _ in 0..nb {
+            t.off16(T::of(cov_any(rng, k.uni, false)));
+        }
+        let ni = rng.below(4) as u16;
+        t.b.f16(ni);
+        for _ in 0..ni {
+            t.off16(T::of(cov_any(rng, k.uni, false)));
+        }
+        let na = rng.below(3) as u16;
+        t.b.f16(na);
+        for _ in 0..na {
+            t.off16(T::of(cov_any(rng, k.uni, false)));
+        }
+        seq_lookup_records(rng, &mut t.b, ni.saturating_sub(1), k.n_lookups);
+    } else {
+        let ni = rng.below(4) as u16;
+        let nl = rng.below(3) as u16;
+        t.b.f16(ni).f16(nl);
+        for _ in 0..ni {
+            t.off16(T::of(cov_any(rng, k.uni, false)));
+        }
+        seq_lookup_body(rng, &mut t.b, nl, ni.saturating_sub(1), k.n_lookups);
+    }
+    t
+}
+
+fn context(rng: &mut Rng, k: &Lk, chained: bool) -> T {
+    match rng.below(3) {
+        0 => ctx_format1(rng, k, chained, false),
+        1 => ctx_format1(rng, k, chained, true),
+        _ => ctx_format3(rng, k, chained),
+    }
+}
+
+fn gsub_reverse(rng: &mut Rng, k: &Lk) -> T {
+    let mut t = T::new();
+    t.b.u16(1);
+    t.off16(T::of(cov_any(rng, k.uni, false)));
+    for _ in 0..2 {
+        let n = rng.below(3) as u16;
+        t.b.f16(n);
+        for _ in 0..n {
+            t.off16(T::of(cov_any(rng, k.uni, false)));
+        }
+    }
+    let n = rng.below(6) as u16;
+    t.b.f16(n);
+    glyph_seq(rng, k.uni + 8, &mut t.b, n);
+    t
+}
+
+/// extension subtable (format 1, type, Offset32)
+fn extension(ty: u16, inner: T) -> T {
+    let mut t = T::new();
+    t.b.u16(1).f16(ty);
+    t.off32(inner);
+    t
+}
+
+fn gsub_subtable(rng: &mut Rng, ty: u16, k: &Lk) -> T {
+    match ty {
+        1 => gsub_single(rng, k),
+        2 | 3 => gsub_multiple(rng, k),
+        4 => gsub_ligature(rng, k),
+        5 => context(rng, k, false),
+        6 => context(rng, k, true),
+        8 => gsub_reverse(rng, k),
+        7 => {
+            // extension pointing at an extension
+            let inner = gsub_single(rng, k);
+            extension(1, inner)
+        }
+        _ => T::of({
+            let mut b = B::new();
+            b.bytes(&rng.bytes(8));
+            b
+        }),
+    }
+}
+
+fn gsub_lookup(rng: &mut Rng, k: &Lk, reg_type: bool) -> T {
+    let ty = *rng.pick(&[1u16, 1, 2, 3, 4, 5, 5, 6, 6, 8, 7, 7, 7, 0, 9]);
+    let n = if rng.chance(1, 10) { 0 } else { 1 + rng.below(2) as usize };
+    if ty == 7 {
+        let ext_ty = *rng.pick(&[1u16, 2, 3, 4, 5, 6, 8, 7, 0, 9]);
+        let subs: Vec<T> = (0..n)
+            .map(|_| {
+                let inner = gsub_subtable(rng, ext_ty, k);
+                extension(ext_ty, inner)
+            })
+            .collect();
+        lookup(rng, 7, subs, reg_type)
+    } else {
+        let subs: Vec<T> = (0..n).map(|_| gsub_subtable(rng, ty, k)).collect();
+        lookup(rng, ty, subs, reg_type)
+    }
+}
+
+/// GSUB / GPOS header + lists; `mk` builds one lookup
+fn layout_table(rng: &mut Rng, k: &Lk, sorted: bool, reg_type: bool, mk: &dyn Fn(&mut Rng, &Lk, bool) -> T) -> B {
+    let n_features = rng.below(5) as u16;
+    let mut t = T::new();
+    let v11 = rng.chance(1, 2);
+    t.b.u16(1).f16(if v11 { 1 } else { 0 });
+    let (sl, _) = script_list(rng, n_features, sorted);
+    t.off16(sl);
+    let (fl, _) = feature_list(rng, n_features, k.n_lookups);
+    t.off16(fl);
+    let mut ll = T::new();
+    ll.b.f16(k.n_lookups);
+    for _ in 0..k.n_lookups {
+        let l = mk(rng, k, reg_type);
+        ll.off16(l);
+    }
+    t.off16(ll);
+    if v11 {
+        if rng.chance(2, 3) {
+            let fv = feature_variations(rng, n_features, k.n_lookups);
+            t.off32(fv);
+        } else {
+            t.b.f32(0);
+        }
+    }
+    t.flat()
+}
+
+// --- GPOS
+
+/// value record bytes for `format`; device offsets point at child tables of `t`
+fn value_record(rng: &mut Rng, t: &mut T, format: u16) {
+    for bit in 0..16 {
+        if format & (1 << bit) == 0 {
+            continue;
+        }
+        if (4..8).contains(&bit) {
+            if rng.chance(1, 2) {
+                t.off16(T::of(device_any(rng)));
+            } else {
+                t.b.f16(0);
+            }
+        } else if bit < 4 {
+            t.b.i16(rng.range(-500, 500) as i16);
+        }
+        // reserved bits: no data
+    }
+}
+
+fn value_format(rng: &mut Rng) -> u16 {
+    match rng.below(8) {
+        0 => 0,
+        1 => 0xFF,
+        2 => 0x0F,
+        3 => 0xF0,
+        4 => rng.next() as u16, // reserved bits set
+        _ => rng.below(256) as u16,
+    }
+}
+
+fn anchor(rng: &mut Rng) -> T {
+    let mut t = T::new();
+    let fmt = *rng.pick(&[1u16, 2, 3, 3, 3, 0, 4]);
+    t.b.u16(fmt).i16(rng.next() as i16).i16(rng.next() as i16);
+    match fmt {
+        2 => {
+            t.b.u16(rng.below(100) as u16);
+        }
+        3 => {
+            for _ in 0..2 {
+                if rng.chance(2, 3) {
+                    t.off16(T::of(device_any(rng)));
+                } else {
+                    t.b.f16(0);
+                }
+            }
+        }
+        _ => {}
+    }
+    t
+}
+
+fn gpos_single(rng: &mut Rng, k: &Lk) -> T {
+    let mut t = T::new();
+    let vf = value_format(rng);
+    if rng.chance(1, 2) {
+        t.b.u16(1);
+        t.off16(T::of(cov_any(rng, k.uni, false)));
+        t.b.f16(vf);
+        value_record(rng, &mut t, vf);
+    } else {
+        t.b.u16(2);
+        t.off16(T::of(cov_any(rng, k.uni, false)));
+        t.b.f16(vf);
+        let n = rng.below(4) as u16;
+        t.b.f16(n);
+        for _ in 0..n {
+            value_record(rng, &mut t, vf);
+        }
+    }
+    t
+}
+
+fn gpos_pair(rng: &mut Rng, k: &Lk) -> T {
+    let mut t = T::new();
+    let (vf1, vf2) = (value_format(rng) & 0x55, value_format(rng) & 0x33);
+    if rng.chance(1, 2) {
+        t.b.u16(1);
+        t.off16(T::of(cov_any(rng, k.uni, false)));
+        t.b.f16(vf1).f16(vf2);
+        let n = rng.below(3) as u16;
+        t.b.f16(n);
+        for _ in 0..n {
+            let mut ps = T::new();
+            let m = rng.below(3) as u16;
+            ps.b.f16(m);
+            for _ in 0..m {
+                ps.b.u16(rng.below(k.uni as u64) as u16);
+                value_record(rng, &mut ps, vf1);
+                value_record(rng, &mut ps, vf2);
+            }
+            t.off16(ps);
+        }
+    } else {
+        t.b.u16(2);
+        t.off16(T::of(cov_any(rng, k.uni, false)));
+        t.b.f16(vf1).f16(vf2);
+        t.off16(T::of(class_any(rng, k.uni, 2, false)));
+        t.off16(T::of(class_any(rng, k.uni, 2, false)));
+        let (c1, c2) = (rng.below(3) as u16, rng.below(3) as u16);
+        t.b.f16(c1).f16(c2);
+        for _ in 0..c1 * c2 {
+            value_record(rng, &mut t, vf1);
+            value_record(rng, &mut t, vf2);
+        }
+    }
+    t
+}
+
+fn gpos_cursive(rng: &mut Rng, k: &Lk) -> T {
+    let mut t = T::new();
+    t.b.u16(1);
+    t.off16(T::of(cov_any(rng, k.uni, false)));
+    let n = rng.below(4) as u16;
+    t.b.f16(n);
+    for _ in 0..n {
+        for _ in 0..2 {
+            let a = if rng.chance(2, 3) { Some(anchor(rng)) } else { None };
+            t.opt16(a);
+        }
+    }
+    t
+}
+
+fn mark_array(rng: &mut Rng, classes: u16) -> T {
+    let mut t = T::new();
+    let n = rng.below(4) as u16;
+    t.b.f16(n);
+    for _ in 0..n {
+        t.b.u16(rng.below(classes as u64 + 1) as u16);
+        let a = anchor(rng);
+        t.off16(a);
+    }
+    t
+}
+
+/// BaseArray / Mark2Array / LigatureAttach: count x (classes x nullable anchor offsets)
+fn anchor_matrix(rng: &mut Rng, classes: u16) -> T {
+    let mut t = T::new();
+    let n = rng.below(3) as u16;
+    t.b.f16(n);
+    for _ in 0..n * classes {
+        let a = if rng.chance(2, 3) { Some(anchor(rng)) } else { None };
+        t.opt16(a);
+    }
+    t
+}
+
+fn gpos_mark(rng: &mut Rng, k: &Lk, lig: bool) -> T {
+    let mut t = T::new();
+    t.b.u16(1);
+    t.off16(T::of(cov_any(rng, k.uni, false)));
+    t.off16(T::of(cov_any(rng, k.uni, false)));
+    let classes = rng.below(3) as u16;
+    t.b.f16(classes);
+    let ma = mark_array(rng, classes);
+    t.off16(ma);
+    if lig {
+        let mut la = T::new();
+        let n = rng.below(3) as u16;
+        la.b.f16(n);
+        for _ in 0..n {
+            let m = anchor_matrix(rng, classes);
+            la.off16(m);
+        }
+        t.off16(la);
+    } else {
+        let m = anchor_matrix(rng, classes);
+        t.off16(m);
+    }
+    t
+}
+
+fn gpos_subtable(rng: &mut Rng, ty: u16, k: &Lk) -> T {
+    match ty {
+        1 => gpos_single(rng, k),
+        2 => gpos_pair(rng, k),
+        3 => gpos_cursive(rng, k),
+        4 | 6 => gpos_mark(rng, k, false),
+        5 => gpos_mark(rng, k, true),
+        7 => context(rng, k, false),
+        8 => context(rng, k, true),
+        9 => {
+            let inner = gpos_single(rng, k);
+            extension(1, inner)
+        }
+        _ => T::of({
+            let mut b = B::new();
+            b.bytes(&rng.bytes(8));
+            b
+        }),
+    }
+}
+
+fn gpos_lookup(rng: &mut Rng, k: &Lk, reg_type: bool) -> T {
+    let ty = *rng.pick(&[1u16, 1, 2, 2, 3, 4, 5, 6, 7, 8, 9, 9, 9, 0, 10]);
+    let n = if rng.chance(1, 10) { 0 } else { 1 + rng.below(2) as usize };
+    if ty == 9 {
+        let ext_ty = *rng.pick(&[1u16, 2, 3, 4, 5, 6, 7, 8, 9, 0, 10]);
+        let subs: Vec<T> = (0..n)
+            .map(|_| {
+                let inner = gpos_subtable(rng, ext_ty, k);
+                extension(ext_ty, inner)
+            })
+            .collect();
+        lookup(rng, 9, subs, reg_type)
+    } else {
+        let subs: Vec<T> = (0..n).map(|_| gpos_subtable(rng, ty, k)).collect();
+        lookup(rng, ty, subs, reg_type)
+    }
+}
+
+// ------------------------------------------------------------------------------------------------
+// walks: layout tables
+
+fn note_tag(o: &mut Obs, t: Tag) {
+    o.note(u32::from_be_bytes(t.to_be_bytes()) as u64);
+}
+
+fn note_field(o: &mut Obs, f: &FieldType) {
+    match f {
+        FieldType::U16(v) => o.note(*v as u64),
+        FieldType::I16(v) => o.note(*v as u16 as u64),
+        FieldType::ResolvedOffset(r) => {
+            o.note(r.offset.to_u32() as u64);
+            o.note(r.target.is_ok() as u64);
+        }
+        FieldType::BareOffset(off) => o.note(off.to_u32() as u64),
+        FieldType::Record(_) => o.note(71),
+        FieldType::Array(a) => o.note(a.len() as u64),
+        _ => o.note(99),
+    }
+}
+
+fn note_table_fields<'a>(o: &mut Obs, t: &dyn SomeTable<'a>, n: usize) {
+    o.note_str(t.type_name());
+    for i in 0..n {
+        match t.get_field(i) {
+            Some(f) => {
+                o.note_str(f.name);
+                note_field(o, &f.value);
+            }
+            None => o.note(0),
+        }
+    }
+}
+
+/// population from the (generated) record fields
+fn cov_pop(cov: &CoverageTable) -> usize {
+    match cov {
+        CoverageTable::Format1(t) => t.glyph_count() as usize,
+        CoverageTable::Format2(t) => t
+            .range_records()
+            .iter()
+            .map(|r| {
+                let (s, e) = (r.start_glyph_id().to_u16() as usize, r.end_glyph_id().to_u16() as usize);
+                if e >= s {
+                    e - s + 1
+                } else {
+                    0
+                }
+            })
+            .sum(),
+    }
+}
+
+fn class_pop(cd: &ClassDef) -> usize {
+    match cd {
+        ClassDef::Format1(t) => t.glyph_count() as usize,
+        ClassDef::Format2(t) => t
+            .class_range_records()
+            .iter()
+            .map(|r| {
+                let (s, e) = (r.start_glyph_id().to_u16() as usize, r.end_glyph_id().to_u16() as usize);
+                if e >= s {
+                    e - s + 1
+                } else {
+                    0
+                }
+            })
+            .sum(),
+    }
+}
+
+const NESTED_BUDGET: usize = 5000;
+
+fn touch_cov(o: &mut Obs, r: Result<CoverageTable, read_fonts::ReadError>) {
+    if !o.res(&r) {
+        return;
+    }
+    let cov = r.unwrap();
+    for g in [0u16, 1, 2, 5, 0xFFFF] {
+        note_opt16(o, cov.get(GlyphId16::new(g)));
+    }
+    let p = cov_pop(&cov).min(NESTED_BUDGET);
+    o.drain("nested coverage.iter", p + 1, cov.iter().take(NESTED_BUDGET), |o, g| o.note(g.to_u16() as u64));
+}
+
+fn touch_class(o: &mut Obs, r: Result<ClassDef, read_fonts::ReadError>) {
+    if !o.res(&r) {
+        return;
+    }
+    let cd = r.unwrap();
+    for g in [0u16, 1, 2, 5, 0xFFFF] {
+        o.note(cd.get(GlyphId16::new(g)) as u64);
+    }
+    o.note(cd.population() as u64);
+    let p = class_pop(&cd).min(NESTED_BUDGET);
+    o.drain("nested classdef.iter", p + 1, cd.iter().take(NESTED_BUDGET), |o, (g, c)| o.note(((g.to_u16() as u64) << 16) | c as u64));
+}
+
+fn walk_lang_sys(ls: &lay::LangSys, fl: Option<&lay::FeatureList>, o: &mut Obs) {
+    o.note(ls.required_feature_index() as u64);
+    let Some(fl) = fl else { return };
+    let mut tags: Vec<Tag> = fl.feature_records().iter().take(6).map(|r| r.feature_tag()).collect();
+    tags.extend([Tag::new(b"liga"), Tag::new(b"zzzz"), Tag::new(b"\0\0\0\0")]);
+    for t in tags {
+        note_opt16(o, ls.feature_index_for_tag(fl, t));
+    }
+}
+
+fn walk_script(s: &lay::Script, fl: Option<&lay::FeatureList>, o: &mut Obs) {
+    let recs = s.lang_sys_records();
+    let mut tags: Vec<Tag> = recs.iter().take(6).map(|r| r.lang_sys_tag()).collect();
+    tags.extend(LANG_TAGS.iter().map(|t| Tag::new(t)));
+    for t in &tags {
+        note_opt16(o, s.lang_sys_index_for_tag(*t));
+    }
+    for (k, i) in edge16(&[recs.len() as u32]).into_iter().enumerate() {
+        let r = s.lang_sys(i);
+        if o.res(&r) && k < 8 {
+            let te = r.unwrap();
+            note_tag(o, te.tag);
+            walk_lang_sys(&te, fl, o);
+        }
+    }
+    if let Some(Ok(ls)) = s.default_lang_sys() {
+        walk_lang_sys(&ls, fl, o);
+    }
+}
+
+fn walk_script_list(sl: &lay::ScriptList, fl: Option<&lay::FeatureList>, o: &mut Obs) {
+    let recs = sl.script_records();
+    let mut tags: Vec<Tag> = recs.iter().take(8).map(|r| r.script_tag()).collect();
+    tags.extend(SCRIPT_TAGS.iter().map(|t| Tag::new(t)));
+    for t in &tags {
+        note_opt16(o, sl.index_for_tag(*t));
+    }
+    for (k, i) in edge16(&[recs.len() as u32]).into_iter().enumerate() {
+        let r = sl.get(i);
+        if o.res(&r) && k < 8 {
+            let te = r.unwrap();
+            note_tag(o, te.tag);
+            walk_script(&te.element, fl, o);
+        }
+    }
+    let first: Vec<Tag> = tags.iter().take(1).copied().collect();
+    let last2: Vec<Tag> = recs.iter().rev().take(2).map(|r| r.script_tag()).collect();
+    for ts in [&[][..], &first[..], &last2[..], &[Tag::new(b"qqqq"), Tag::new(b"latn")][..], &tags[..]] {
+        match sl.select(ts) {
+            Some(s) => {
+                note_tag(o, s.tag);
+                o.note(s.index as u64);
+                o.note(s.is_fallback as u64);
+            }
+            None => o.note(0),
+        }
+    }
+}
+
+fn walk_feature(f: &lay::Feature, o: &mut Obs) {
+    for ix in f.lookup_list_indices().iter().take(8) {
+        o.note(ix.get() as u64);
+    }
+    match f.feature_params() {
+        Some(Ok(p)) => {
+            o.note(match &p {
+                lay::FeatureParams::StylisticSet(_) => 1,
+                lay::FeatureParams::Size(_) => 2,
+                lay::FeatureParams::CharacterVariant(_) => 3,
+            });
+            note_table_fields(o, &p, 9);
+        }
+        Some(Err(e)) => o.note_str(&format!("{e:?}")),
+        None => o.note(0),
+    }
+}
+
+fn walk_feature_list(fl: &lay::FeatureList, o: &mut Obs) {
+    let n = fl.feature_records().len();
+    for (k, i) in edge16(&[n as u32]).into_iter().enumerate() {
+        let r = fl.get(i);
+        if o.res(&r) && k < 10 {
+            let te = r.unwrap();
+            note_tag(o, te.tag);
+            walk_feature(&te, o);
+        }
+    }
+}
+
+fn walk_feature_variations(fv: &lay::FeatureVariations, o: &mut Obs) {
+    let data = fv.offset_data();
+    for rec in fv.feature_variation_records().iter().take(6) {
+        match rec.condition_set(data) {
+            Some(Ok(cs)) => {
+                o.drain("conditions.iter", data.len() / 4 + 1, cs.conditions().iter(), |o, c| o.note(c.is_ok() as u64));
+            }
+            Some(Err(_)) => o.note(2),
+            None => o.note(0),
+        }
+        match rec.feature_table_substitution(data) {
+            Some(Ok(fts)) => {
+                for sub in fts.substitutions().iter().take(6) {
+                    o.note(sub.feature_index() as u64);
+                    let r = sub.alternate_feature(fts.offset_data());
+                    if o.res(&r) {
+                        walk_feature(&r.unwrap(), o);
+                    }
+                }
+            }
+            Some(Err(_)) => o.note(2),
+            None => o.note(0),
+        }
+    }
+}
+
+fn walk_flag(o: &mut Obs, f: LookupFlag) {
+    o.note(f.to_bits() as u64);
+    note_opt16(o, f.mark_attachment_class());
+    o.note(f.contains(LookupFlag::USE_MARK_FILTERING_SET) as u64);
+}
+
+fn walk_subtables<'a, S: FontRead<'a> + 'a, E: lay::ExtensionLookup<'a, S> + 'a>(
+    o: &mut Obs,
+    len: usize,
+    st: &lay::Subtables<'a, S, E>,
+    mut f: impl FnMut(&mut Obs, &S),
+) {
+    let n = st.len();
+    o.note(n as u64);
+    o.note(st.is_empty() as u64);
+    for i in edge_usize(&[n]) {
+        let r = st.get(i);
+        o.res(&r);
+    }
+    o.drain("subtables.iter", len / 2 + 1, st.iter(), |o, r| {
+        if o.res(&r) {
+            f(o, &r.unwrap());
+        }
+    });
+}
+
+fn touch_seq_context(o: &mut Obs, c: &lay::SequenceContext) {
+    match c {
+        lay::SequenceContext::Format1(t) => touch_cov(o, t.coverage()),
+        lay::SequenceContext::Format2(t) => {
+            touch_cov(o, t.coverage());
+            touch_class(o, t.class_def());
+        }
+        lay::SequenceContext::Format3(t) => {
+            if let Ok(c) = t.coverages().get(0) {
+                touch_cov(o, Ok(c));
+            }
+        }
+    }
+}
+
+fn touch_chain_context(o: &mut Obs, c: &lay::ChainedSequenceContext) {
+    match c {
+        lay::ChainedSequenceContext::Format1(t) => touch_cov(o, t.coverage()),
+        lay::ChainedSequenceContext::Format2(t) => {
+            touch_cov(o, t.coverage());
+            touch_class(o, t.input_class_def());
+        }
+        lay::ChainedSequenceContext::Format3(t) => {
+            if let Ok(c) = t.input_coverages().get(0) {
+                touch_cov(o, Ok(c));
+            }
+        }
+    }
+}
+
+fn walk_common(
+    o: &mut Obs,
+    sl: Result<lay::ScriptList, read_fonts::ReadError>,
+    fl: Result<lay::FeatureList, read_fonts::ReadError>,
+    fv: Option<Result<lay::FeatureVariations, read_fonts::ReadError>>,
+) {
+    let fl_ok = fl.as_ref().ok();
+    if let Ok(sl) = &sl {
+        walk_script_list(sl, fl_ok, o);
+    }
+    if let Some(fl) = fl_ok {
+        walk_feature_list(fl, o);
+    }
+    if let Some(Ok(fv)) = fv {
+        walk_feature_variations(&fv, o);
+    }
+}
+
+fn walk_gsub(bytes: &[u8], o: &mut Obs) {
+    let Ok(gsub) = Gsub::read(FontData::new(bytes)) else {
+        o.note(0);
+        return;
+    };
+    let len = bytes.len();
+    walk_common(o, gsub.script_list(), gsub.feature_list(), gsub.feature_variations());
+    let Ok(ll) = gsub.lookup_list() else { return };
+    let lookups = ll.lookups();
+    let n = lookups.len();
+    let mut ids = edge_usize(&[n]);
+    ids.extend(0..n.min(16));
+    for i in ids {
+        let r = lookups.get(i);
+        if !o.res(&r) {
+            continue;
+        }
+        let l = r.unwrap();
+        walk_flag(o, l.lookup_flag());
+        o.note(l.lookup_type() as u64);
+        note_opt16(o, l.mark_filtering_set());
+        let st = l.subtables();
+        if !o.res(&st) {
+            continue;
+        }
+        match st.unwrap() {
+            SubstitutionSubtables::Single(s) => walk_subtables(o, len, &s, |o, t| match t {
+                gsub::SingleSubst::Format1(t) => touch_cov(o, t.coverage()),
+                gsub::SingleSubst::Format2(t) => touch_cov(o, t.coverage()),
+            }),
+            SubstitutionSubtables::Multiple(s) => walk_subtables(o, len, &s, |o, t| touch_cov(o, t.coverage())),
+            SubstitutionSubtables::Alternate(s) => walk_subtables(o, len, &s, |o, t| touch_cov(o, t.coverage())),
+            SubstitutionSubtables::Ligature(s) => walk_subtables(o, len, &s, |o, t| touch_cov(o, t.coverage())),
+            SubstitutionSubtables::Contextual(s) => walk_subtables(o, len, &s, |o, t| touch_seq_context(o, t)),
+            SubstitutionSubtables::ChainContextual(s) => walk_subtables(o, len, &s, |o, t| touch_chain_context(o, t)),
+            SubstitutionSubtables::Reverse(s) => walk_subtables(o, len, &s, |o, t| touch_cov(o, t.coverage())),
+        }
+    }
+}
+
+fn walk_value_record(o: &mut Obs, vr: &ValueRecord, data: FontData, len: usize) {
+    for v in [vr.x_placement(), vr.y_placement(), vr.x_advance(), vr.y_advance()] {
+        o.note(v.map(|x| x as u16 as u64 + 1).unwrap_or(0));
+    }
+    o.note(vr.format.bits() as u64);
+    o.note(vr.format.record_byte_len() as u64);
+    for d in [vr.x_placement_device(data), vr.y_placement_device(data), vr.x_advance_device(data), vr.y_advance_device(data)] {
+        match d {
+            Some(Ok(d)) => walk_dev_or_var(&d, len, o),
+            Some(Err(e)) => o.note_str(&format!("{e:?}")),
+            None => o.note(0),
+        }
+    }
+    o.note_str(&format!("{vr:?}"));
+    o.note((vr == &vr.clone()) as u64);
+    let rr = vr.clone().traverse(data);
+    note_table_fields(o, &rr, 10);
+}
+
+fn walk_anchor(o: &mut Obs, r: Result<gpos::AnchorTable, read_fonts::ReadError>, len: usize) {
+    if !o.res(&r) {
+        return;
+    }
+    let a = r.unwrap();
+    for d in [a.x_device(), a.y_device()] {
+        match d {
+            Some(Ok(d)) => walk_dev_or_var(&d, len, o),
+            Some(Err(e)) => o.note_str(&format!("{e:?}")),
+            None => o.note(0),
+        }
+    }
+}
+
+fn walk_mark_array(o: &mut Obs, r: Result<gpos::MarkArray, read_fonts::ReadError>, len: usize) {
+    if let Ok(ma) = r {
+        for rec in ma.mark_records().iter().take(5) {
+            o.note(rec.mark_class() as u64);
+            walk_anchor(o, rec.mark_anchor(ma.offset_data()), len);
+        }
+    }
+}
+
+fn walk_gpos(bytes: &[u8], o: &mut Obs) {
+    let Ok(gp) = Gpos::read(FontData::new(bytes)) else {
+        o.note(0);
+        return;
+    };
+    let len = bytes.len();
+    walk_common(o, gp.script_list(), gp.feature_list(), gp.feature_variations());
+    let Ok(ll) = gp.lookup_list() else { return };
+    let lookups = ll.lookups();
+    let n = lookups.len();
+    let mut ids = edge_usize(&[n]);
+    ids.extend(0..n.min(16));
+    let rec_cap = len + 0x1_0000;
+    for i in ids {
+        let r = lookups.get(i);
+        if !o.res(&r) {
+            continue;
+        }
+        let l = r.unwrap();
+        walk_flag(o, l.lookup_flag());
+        o.note(l.lookup_type() as u64);
+        note_opt16(o, l.mark_filtering_set());
+        let st = l.subtables();
+        if !o.res(&st) {
+            continue;
+        }
+        match st.unwrap() {
+            PositionSubtables::Single(s) => walk_subtables(o, len, &s, |o, t| match t {
+                gpos::SinglePos::Format1(t) => {
+                    touch_cov(o, t.coverage());
+                    walk_value_record(o, &t.value_record(), t.offset_data(), len);
+                    // traversal of the record field (`ValueRecord::traversal_type`)
+                    note_table_fields(o, t, 5);
+                }
+                gpos::SinglePos::Format2(t) => {
+                    touch_cov(o, t.coverage());
+                    let data = t.offset_data();
+                    o.drain("value_records.iter", rec_cap, t.value_records().iter(), |o, r| {
+                        if let Ok(vr) = r {
+                            if o.items < 4 {
+                                walk_value_record(o, &vr, data, len);
+                            }
+                        }
+                    });
+                }
+            }),
+            PositionSubtables::Pair(s) => walk_subtables(o, len, &s, |o, t| match t {
+                gpos::PairPos::Format1(t) => {
+                    touch_cov(o, t.coverage());
+                    for ps in t.pair_sets().iter().take(3).flatten() {
+                        let data = ps.offset_data();
+                        for rec in ps.pair_value_records().iter().take(4).flatten() {
+                            o.note(rec.second_glyph().to_u16() as u64);
+                            walk_value_record(o, rec.value_record1(), data, len);
+                            walk_value_record(o, rec.value_record2(), data, len);
+                        }
+                    }
+                }
+                gpos::PairPos::Format2(t) => {
+                    touch_cov(o, t.coverage());
+                    touch_class(o, t.class_def1());
+                    touch_class(o, t.class_def2());
+                    let data = t.offset_data();
+                    for c1 in t.class1_records().iter().take(3).flatten() {
+                        for c2 in c1.class2_records().iter().take(3).flatten() {
+                            walk_value_record(o, c2.value_record1(), data, len);
+                            walk_value_record(o, c2.value_record2(), data, len);
+                        }
+                    }
+                }
+            }),
+            PositionSubtables::Cursive(s) => walk_subtables(o, len, &s, |o, t| {
+                touch_cov(o, t.coverage());
+                let data = t.offset_data();
+                for rec in t.entry_exit_record().iter().take(5) {
+                    if let Some(a) = rec.entry_anchor(data) {
+                        walk_anchor(o, a, len);
+                    }
+                    if let Some(a) = rec.exit_anchor(data) {
+                        walk_anchor(o, a, len);
+                    }
+                }
+            }),
+            PositionSubtables::MarkToBase(s) => walk_subtables(o, len, &s, |o, t| {
+                touch_cov(o, t.mark_coverage());
+                touch_cov(o, t.base_coverage());
+                walk_mark_array(o, t.mark_array(), len);
+                if let Ok(ba) = t.base_array() {
+                    let data = ba.offset_data();
+                    for rec in ba.base_records().iter().take(3).flatten() {
+                        for a in rec.base_anchors(data).iter().take(3).flatten() {
+                            walk_anchor(o, a, len);
+                        }
+                    }
+                }
+            }),
+            PositionSubtables::MarkToLig(s) => walk_subtables(o, len, &s, |o, t| {
+                touch_cov(o, t.mark_coverage());
+                walk_mark_array(o, t.mark_array(), len);
+                if let Ok(la) = t.ligature_array() {
+                    for att in la.ligature_attaches().iter().take(3).flatten() {
+                        let data = att.offset_data();
+                        for rec in att.component_records().iter().take(3).flatten() {
+                            for a in rec.ligature_anchors(data).iter().take(3).flatten() {
+                                walk_anchor(o, a, len);
+                            }
+                        }
+                    }
+                }
+            }),
+            PositionSubtables::MarkToMark(s) => walk_subtables(o, len, &s, |o, t| {
+                touch_cov(o, t.mark1_coverage());
+                walk_mark_array(o, t.mark1_array(), len);
+                if let Ok(m2) = t.mark2_array() {
+                    let data = m2.offset_data();
+                    for rec in m2.mark2_records().iter().take(3).flatten() {
+                        for a in rec.mark2_anchors(data).iter().take(3).flatten() {
+                            walk_anchor(o, a, len);
+                        }
+                    }
+                }
+            }),
+            PositionSubtables::Contextual(s) => walk_subtables(o, len, &s, |o, t| touch_seq_context(o, t)),
+            PositionSubtables::ChainContextual(s) => walk_subtables(o, len, &s, |o, t| touch_chain_context(o, t)),
+        }
+    }
+}
+
+/// a bare `Lookup<T>`: `get_subtable`, traversal (`traverse_lookup_flag`)
+fn walk_lookup(bytes: &[u8], o: &mut Obs) {
+    let r = lay::Lookup::<gsub::SingleSubst>::read(FontData::new(bytes));
+    if !o.res(&r) {
+        return;
+    }
+    let l = r.unwrap();
+    walk_flag(o, l.lookup_flag());
+    note_opt16(o, l.mark_filtering_set());
+    let mut offs: Vec<u16> = l.subtable_offsets().iter().take(6).map(|x| x.get().to_u32() as u16).collect();
+    offs.extend(edge16(&[bytes.len() as u32]));
+    for off in offs {
+        let r = l.get_subtable(font_types::Offset16::new(off));
+        o.res(&r);
+    }
+    note_table_fields(o, &l, 6);
+}
+
+fn walk_feature_params(tag: Tag) -> impl Fn(&[u8], &mut Obs) {
+    move |bytes: &[u8], o: &mut Obs| {
+        let r = lay::FeatureParams::read_with_args(FontData::new(bytes), &tag);
+        if o.res(&r) {
+            note_table_fields(o, &r.unwrap(), 9);
+        }
+        let r = lay::Feature::read(FontData::new(bytes), tag);
+        if o.res(&r) {
+            walk_feature(&r.unwrap(), o);
+        }
+    }
+}
+
+fn walk_script_list_bytes(bytes: &[u8], o: &mut Obs) {
+    let r = lay::ScriptList::read(FontData::new(bytes));
+    if o.res(&r) {
+        walk_script_list(&r.unwrap(), None, o);
+    }
+}
+
+fn walk_anchor_bytes(bytes: &[u8], o: &mut Obs) {
+    walk_anchor(o, gpos::AnchorTable::read(FontData::new(bytes)), bytes.len());
+}
+
+// ------------------------------------------------------------------------------------------------
+// exhaustive sweeps + models
+
+fn lookup_flag_sweep(ctx: &mut Ctx) {
+    let input = "lookup_flag.sweep".to_string();
+    model(ctx, "lookupflag-model", input, || {
+        for bits in 0..=0xFFFFu16 {
+            let f = LookupFlag::from_bits_truncate(bits);
+            if f.to_bits() != bits & !0xE0 {
+                return Err(format!("from_bits_truncate({bits:#x}).to_bits() = {:#x}", f.to_bits()));
+            }
+            let want = if bits & 0xFF00 == 0 { None } else { Some(bits >> 8) };
+            if f.mark_attachment_class() != want {
+                return Err(format!("mark_attachment_class({bits:#x}) = {:?}", f.mark_attachment_class()));
+            }
+            for (flag, mask) in [
+                (LookupFlag::RIGHT_TO_LEFT, 1u16),
+                (LookupFlag::IGNORE_BASE_GLYPHS, 2),
+                (LookupFlag::IGNORE_LIGATURES, 4),
+                (LookupFlag::IGNORE_MARKS, 8),
+                (LookupFlag::USE_MARK_FILTERING_SET, 16),
+            ] {
+                if f.contains(flag) != (bits & mask != 0) {
+                    return Err(format!("contains({mask}) on {bits:#x}"));
+                }
+            }
+            if !f.contains(LookupFlag::empty()) {
+                return Err("contains(empty)".into());
+            }
+            let mut g = f;
+            let cls = bits.rotate_left(5);
+            g.set_mark_attachment_class(cls);
+            if g.to_bits() != (f.to_bits() & 0xFF) | ((cls & 0xFF) << 8) {
+                return Err(format!("set_mark_attachment_class({cls:#x}) on {bits:#x} = {:#x}", g.to_bits()));
+            }
+            let other = LookupFlag::from_bits_truncate(bits.rotate_left(3));
+            let mut h = f;
+            h |= other;
+            if (f | other).to_bits() != f.to_bits() | other.to_bits() || h != (f | other) {
+                return Err(format!("bitor {bits:#x}"));
+            }
+            // Scalar round trip keeps every bit
+            use font_types::Scalar;
+            let raw = bits.to_raw();
+            if LookupFlag::from_raw(raw).to_bits() != bits || LookupFlag::from_raw(raw).to_raw() != raw {
+                return Err(format!("scalar round trip {bits:#x}"));
+            }
+        }
+        if LookupFlag::empty() != LookupFlag::default() {
+            return Err("empty != default".into());
+        }
+        Ok(())
+    });
+}
+
+fn value_record_sweep(ctx: &mut Ctx) {
+    use read_fonts::ComputeSize;
+    let data: Vec<u8> = (1..=20u8).collect();
+    for raw in 0..=0x1FFu16 {
+        let raw = if raw & 0x100 != 0 { raw | 0xFE00 } else { raw };
+        for len in 0..=17usize {
+            let input = format!("value_record {raw:#x} {}", hex(&data[..len]));
+            let d = &data[..len];
+            model(ctx, "valuerecord-model", input, || {
+                let vf = ValueFormat::from_bits_truncate(raw);
+                let need = 2 * (raw & 0xFF).count_ones() as usize;
+                if vf.record_byte_len() != need {
+                    return Err(format!("record_byte_len {} expected {need}", vf.record_byte_len()));
+                }
+                if ValueRecord::compute_size(&vf) != Ok(need) {
+                    return Err("compute_size".into());
+                }
+                let r = ValueRecord::read(FontData::new(d), vf);
+                let r2 = ValueRecord::read_with_args(FontData::new(d), &vf);
+                if r.is_ok() != (len >= need) || r2.is_ok() != r.is_ok() {
+                    return Err(format!("read ok={} with {len} bytes, needs {need}", r.is_ok()));
+                }
+                if let Ok(vr) = r {
+                    // the fields are consumed in bit order
+                    let mut at = 0usize;
+                    let mut next = |present: bool| -> Option<u16> {
+                        if present {
+                            at += 2;
+                            Some(u16::from_be_bytes([d[at - 2], d[at - 1]]))
+                        } else {
+                            None
+                        }
+                    };
+                    let want = [next(raw & 1 != 0), next(raw & 2 != 0), next(raw & 4 != 0), next(raw & 8 != 0)];
+                    let got = [vr.x_placement(), vr.y_placement(), vr.x_advance(), vr.y_advance()];
+                    for k in 0..4 {
+                        if got[k].map(|v| v as u16) != want[k] {
+                            return Err(format!("field {k}: {:?} expected {:?}", got[k], want[k]));
+                        }
+                    }
+                    let wantd = [next(raw & 0x10 != 0), next(raw & 0x20 != 0), next(raw & 0x40 != 0), next(raw & 0x80 != 0)];
+                    let gotd = [vr.x_placement_device.get(), vr.y_placement_device.get(), vr.x_advance_device.get(), vr.y_advance_device.get()];
+                    for k in 0..4 {
+                        if gotd[k].offset().to_u32() != wantd[k].unwrap_or(0) as u32 {
+                            return Err(format!("device offset {k}"));
+                        }
+                    }
+                    if vr != r2.unwrap() {
+                        return Err("read != read_with_args".into());
+                    }
+                }
+                Ok(())
+            });
+        }
+    }
+    // getters / device resolution / Debug / traversal on records inside a data block
+    let walk = |bytes: &[u8], o: &mut Obs| {
+        let Some(raw) = r16(bytes, 0) else { return };
+        let vf = ValueFormat::from_bits_truncate(raw);
+        let data = FontData::new(bytes);
+        if let Some(rest) = data.split_off(2) {
+            let r = ValueRecord::read(rest, vf);
+            if o.res(&r) {
+                walk_value_record(o, &r.unwrap(), data, bytes.len());
+            }
+        }
+    };
+    let k = if ctx.thorough { 6 } else { 1 };
+    for _ in 0..40 * k {
+        let vf = value_format(&mut ctx.rng);
+        let mut t = T::new();
+        t.b.f16(vf);
+        value_record(&mut ctx.rng, &mut t, vf);
+        ctx.drive("value_record", &t.flat(), &walk);
+    }
+}
+
+fn script_tags_sweep(ctx: &mut Ctx) {
+    use read_fonts::tables::layout::{ScriptTags, UNICODE_TO_NEW_OPENTYPE_SCRIPT_TAGS};
+    let mut tags: Vec<[u8; 4]> = UNICODE_TO_NEW_OPENTYPE_SCRIPT_TAGS.iter().map(|e| *e.0).collect();
+    tags.extend([*b"Zmth", *b"Hira", *b"Kana", *b"Laoo", *b"Yiii", *b"Nkoo", *b"Vaii", *b"Latn", *b"    ", *b"~~~~", *b"Mymr", *b"Mymq", *b"Benf", *b"Bene"]);
+    for _ in 0..200 {
+        let mut t = [0u8; 4];
+        for x in t.iter_mut() {
+            *x = 0x20 + ctx.rng.below(0x5F) as u8;
+        }
+        tags.push(t);
+    }
+    let input = "script_tags.sweep".to_string();
+    model(ctx, "scripttags-model", input, || {
+        for t in &tags {
+            let st = ScriptTags::from_unicode(Tag::new(t));
+            let s = st.as_slice();
+            if s.is_empty() || s.len() > 3 || &*st != s {
+                return Err(format!("from_unicode({t:?}) len {}", s.len()));
+            }
+            let dbg = format!("{st:?}");
+            if dbg.is_empty() {
+                return Err("debug".into());
+            }
+            let is_new = UNICODE_TO_NEW_OPENTYPE_SCRIPT_TAGS.iter().any(|e| e.0 == t);
+            let want = if !is_new {
+                1
+            } else if t == b"Mymr" {
+                2
+            } else {
+                3
+            };
+            if s.len() != want {
+                return Err(format!("from_unicode({t:?}) has {} tags, expected {want}", s.len()));
+            }
+            if st != st.clone() {
+                return Err("eq".into());
+            }
+        }
+        Ok(())
+    });
+}
+
+/// sorted script / lang sys / feature lists: the binary searches against a linear model
+fn tag_lookup_model(ctx: &mut Ctx) {
+    let n_features = 1 + ctx.rng.below(5) as u16;
+    let (sl, stags) = script_list(&mut ctx.rng, n_features, true);
+    let (fl, ftags) = feature_list(&mut ctx.rng, n_features, 3);
+    let slb = sl.flat();
+    let flb = fl.flat();
+    let input = format!("taglookup-model {} {}", hex(&slb.v), hex(&flb.v));
+    model(ctx, "taglookup-model", input, || {
+        let sl = lay::ScriptList::read(FontData::new(&slb.v)).map_err(|e| format!("{e:?}"))?;
+        let fl = lay::FeatureList::read(FontData::new(&flb.v)).map_err(|e| format!("{e:?}"))?;
+        for t in SCRIPT_TAGS.iter() {
+            let want = stags.iter().position(|x| *x == tag32(t)).map(|i| i as u16);
+            if sl.index_for_tag(Tag::new(t)) != want {
+                return Err(format!("index_for_tag({t:?}) = {:?}, expected {want:?}", sl.index_for_tag(Tag::new(t))));
+            }
+        }
+        // select: first requested tag that exists, else DFLT, dflt, latn
+        for req in [vec![], vec![*b"qqqq", *b"thai", *b"arab"], vec![*b"latn"], vec![*b"zzzz", *b"AAAA"]] {
+            let tags: Vec<Tag> = req.iter().map(|t| Tag::new(t)).collect();
+            let mut want = None;
+            for t in &req {
+                if let Some(i) = stags.iter().position(|x| *x == tag32(t)) {
+                    want = Some((tag32(t), i as u16, false));
+                    break;
+                }
+            }
+            if want.is_none() {
+                for t in [b"DFLT", b"dflt", b"latn"] {
+                    if let Some(i) = stags.iter().position(|x| *x == tag32(t)) {
+                        want = Some((tag32(t), i as u16, true));
+                        break;
+                    }
+                }
+            }
+            let got = sl.select(&tags).map(|s| (u32::from_be_bytes(s.tag.to_be_bytes()), s.index, s.is_fallback));
+            if got != want {
+                return Err(format!("select({req:?}) = {got:?}, expected {want:?}"));
+            }
+        }
+        for i in 0..stags.len() as u16 + 2 {
+            let r = sl.get(i);
+            if r.is_ok() != ((i as usize) < stags.len()) {
+                return Err(format!("ScriptList::get({i}) ok={}", r.is_ok()));
+            }
+            let Ok(te) = r else { continue };
+            if u32::from_be_bytes(te.tag.to_be_bytes()) != stags[i as usize] {
+                return Err(format!("ScriptList::get({i}) tag"));
+            }
+            let s = &te.element;
+            let ltags: Vec<u32> = s.lang_sys_records().iter().map(|r| u32::from_be_bytes(r.lang_sys_tag().to_be_bytes())).collect();
+            for t in LANG_TAGS.iter() {
+                let want = ltags.iter().position(|x| *x == tag32(t)).map(|i| i as u16);
+                if s.lang_sys_index_for_tag(Tag::new(t)) != want {
+                    return Err(format!("lang_sys_index_for_tag({t:?}) in {ltags:x?}"));
+                }
+            }
+            for j in 0..ltags.len() as u16 + 2 {
+                let r = s.lang_sys(j);
+                if r.is_ok() != ((j as usize) < ltags.len()) {
+                    return Err(format!("Script::lang_sys({j}) ok={}", r.is_ok()));
+                }
+                let Ok(ls) = r else { continue };
+                for t in FEATURE_TAGS.iter() {
+                    let want = ls.feature_indices().iter().map(|x| x.get()).find(|ix| ftags.get(*ix as usize) == Some(&tag32(t)));
+                    if ls.feature_index_for_tag(&fl, Tag::new(t)) != want {
+                        return Err(format!("feature_index_for_tag({t:?})"));
+                    }
+                }
+            }
+        }
+        for i in 0..ftags.len() as u16 + 2 {
+            let r = fl.get(i);
+            if r.is_ok() != ((i as usize) < ftags.len()) {
+                // a feature whose params fail to parse is still Ok (params are resolved lazily)
+                return Err(format!("FeatureList::get({i}) ok={}", r.is_ok()));
+            }
+        }
+        Ok(())
+    });
+}
+
+fn run_layout_tables(ctx: &mut Ctx, k: usize) {
+    lookup_flag_sweep(ctx);
+    script_tags_sweep(ctx);
+    value_record_sweep(ctx);
+    for _ in 0..150 * k {
+        tag_lookup_model(ctx);
+    }
+    // script lists alone (sorted and unsorted tags)
+    for round in 0..24 * k {
+        let (sl, _) = script_list(&mut ctx.rng, 3, round % 2 == 0);
+        ctx.drive("script_list", &sl.flat(), &walk_script_list_bytes);
+    }
+    // feature params / features under every tag class
+    for round in 0..30 * k {
+        let tag = tag32(FEATURE_TAGS[round % FEATURE_TAGS.len()]);
+        let read_as = if round % 7 == 6 { tag32(b"cv01") } else { tag };
+        let f = walk_feature_params(Tag::new(&read_as.to_be_bytes()));
+        let fp = feature_params(&mut ctx.rng, tag);
+        ctx.drive("feature_params", &fp, &f);
+        let ft = feature(&mut ctx.rng, tag, 4);
+        ctx.drive("feature", &ft.flat(), &f);
+    }
+    // bare lookups
+    let lk = Lk { uni: 30, n_lookups: 4, n_classes: 3, seq_den: 10 };
+    for _ in 0..24 * k {
+        let l = gsub_lookup(&mut ctx.rng, &lk, true);
+        ctx.drive("lookup", &l.flat(), &walk_lookup);
+    }
+    // anchors
+    for _ in 0..30 * k {
+        let a = anchor(&mut ctx.rng);
+        ctx.drive("anchor", &a.flat(), &walk_anchor_bytes);
+    }
+    // whole GSUB / GPOS tables
+    for round in 0..14 * k {
+        let lk = Lk { uni: *ctx.rng.pick(&[12u32, 40, 0x1_0000]), n_lookups: 1 + ctx.rng.below(4) as u16, n_classes: 3, seq_den: 10 };
+        let b = layout_table(&mut ctx.rng, &lk, round % 2 == 0, true, &gsub_lookup);
+        ctx.count_n("gsub.bytes", b.len() as u64);
+        ctx.drive("gsub", &b, &walk_gsub);
+        let b = layout_table(&mut ctx.rng, &lk, round % 2 == 0, true, &gpos_lookup);
+        ctx.count_n("gpos.bytes", b.len() as u64);
+        ctx.drive("gpos", &b, &walk_gpos);
+    }
+    // every lookup type x extension type with one minimal subtable each
+    for ty in 0..=10u16 {
+        for ext in 0..=10u16 {
+            let lk = Lk { uni: 10, n_lookups: 1, n_classes: 2, seq_den: 10 };
+            for gp in [false, true] {
+                let ext_code = if gp { 9 } else { 7 };
+                if ty != ext_code && ext != 0 {
+                    continue;
+                }
+                let mk = |rng: &mut Rng, k: &Lk, _r: bool| -> T {
+                    let sub = if ty == ext_code {
+                        let inner = if gp { gpos_subtable(rng, ext, k) } else { gsub_subtable(rng, ext, k) };
+                        extension(ext, inner)
+                    } else if gp {
+                        gpos_subtable(rng, ty, k)
+                    } else {
+                        gsub_subtable(rng, ty, k)
+                    };
+                    lookup(rng, ty, vec![sub], true)
+                };
+                let b = layout_table(&mut ctx.rng, &lk, true, true, &mk);
+                ctx.count(&format!("{}.type{ty}.ext{ext}", if gp { "gpos" } else { "gsub" }));
+                if gp {
+                    ctx.call("gpos", &b.v, &walk_gpos);
+                } else {
+                    ctx.call("gsub", &b.v, &walk_gsub);
+                }
+            }
+        }
+    }
+    ctx.drive_random("gsub", 300 * k, 64, &walk_gsub);
+    ctx.drive_random("gpos", 300 * k, 64, &walk_gpos);
+}
+
+// ------------------------------------------------------------------------------------------------
+// group layout.closure: gsub/closure.rs, layout/closure.rs, gpos/closure.rs
+
+/// coverage that mostly hits the small glyph universe (so that lookups actually fire)
+fn cov_hit(rng: &mut Rng, k: &Lk) -> B {
+    let uni = k.uni;
+    if k.seq_den != u64::MAX && rng.chance(1, 4) {
+        // hostile shapes, but no huge ranges (every closure pass iterates the whole coverage)
+        let b = cov_any(rng, uni, false);
+        if cov_raw(&b.v).2 > 600 {
+            cov_good(rng, uni, false).0
+        } else {
+            b
+        }
+    } else if rng.chance(1, 3) {
+        // dense: every glyph of the universe
+        cov2(&[(0, uni as u16 - 1, 0)], false)
+    } else {
+        cov_good(rng, uni, false).0
+    }
+}
+
+/// contextual subtable with friendly coverage / classes and lookup records that point at any lookup
+/// (itself included), with sequence indices around the input length
+fn closure_context(rng: &mut Rng, k: &Lk, chained: bool) -> T {
+    let fmt = 1 + rng.below(3);
+    let mut t = T::new();
+    t.b.u16(fmt as u16);
+    let short_seq = |rng: &mut Rng, b: &mut B, uni: u32, n: u16| {
+        for _ in 0..n {
+            b.u16(rng.below(uni as u64) as u16);
+        }
+    };
+    if fmt == 3 {
+        if chained {
+            let nb = rng.below(2) as u16;
+            t.b.f16(nb);
+            for _ in 0..nb {
+                t.off16(T::of(cov_hit(rng, k)));
+            }
+        }
+        let ni = 1 + rng.below(3) as u16;
+        if chained {
+            t.b.f16(ni);
+        } else {
+            let nl = 1 + rng.below(3) as u16;
+            t.b.f16(ni).f16(nl);
+            for _ in 0..ni {
+                t.off16(T::of(cov_hit(rng, k)));
+            }
+            seq_lookup_body_h(rng, &mut t.b, nl, ni - 1, k.n_lookups, k.seq_den);
+            return t;
+        }
+        for _ in 0..ni {
+            t.off16(T::of(cov_hit(rng, k)));
+        }
+        let na = rng.below(2) as u16;
+        t.b.f16(na);
+        for _ in 0..na {
+            t.off16(T::of(cov_hit(rng, k)));
+        }
+        let nl = 1 + rng.below(3) as u16;
+        t.b.f16(nl);
+        seq_lookup_body_h(rng, &mut t.b, nl, ni - 1, k.n_lookups, k.seq_den);
+        return t;
+    }
+    let classes = fmt == 2;
+    t.off16(T::of(cov_hit(rng, k)));
+    if classes {
+        for _ in 0..(if chained { 3 } else { 1 }) {
+            let cd = if k.seq_den != u64::MAX && rng.chance(1, 4) { class_any(rng, k.uni, k.n_classes, false) } else { class_good(rng, k.uni, k.n_classes, false).0 };
+            t.off16(T::of(cd));
+        }
+    }
+    let seq_uni = if classes { k.n_classes as u32 + 1 } else { k.uni };
+    let n_sets = if classes { k.n_classes + 1 } else { 1 + rng.below(4) as u16 };
+    t.b.f16(n_sets);
+    for _ in 0..n_sets {
+        if rng.chance(1, 6) {
+            t.b.f16(0);
+            continue;
+        }
+        let mut set = T::new();
+        let m = 1 + rng.below(2) as u16;
+        set.b.f16(m);
+        for _ in 0..m {
+            let mut rule = T::new();
+            let gc = 1 + rng.below(3) as u16;
+            let nl = 1 + rng.below(3) as u16;
+            if chained {
+                let nb = rng.below(2) as u16;
+                rule.b.f16(nb);
+                short_seq(rng, &mut rule.b, seq_uni, nb);
+                rule.b.f16(gc);
+                short_seq(rng, &mut rule.b, seq_uni, gc - 1);
+                let na = rng.below(2) as u16;
+                rule.b.f16(na);
+                short_seq(rng, &mut rule.b, seq_uni, na);
+                rule.b.f16(nl);
+            } else {
+                rule.b.f16(gc).f16(nl);
+                short_seq(rng, &mut rule.b, seq_uni, gc - 1);
+            }
+            seq_lookup_body_h(rng, &mut rule.b, nl, gc - 1, k.n_lookups, k.seq_den);
+            set.off16(rule);
+        }
+        t.off16(set);
+    }
+    t
+}
+
+fn closure_subtable(rng: &mut Rng, ty: u16, k: &Lk) -> T {
+    let mut t = T::new();
+    match ty {
+        1 => {
+            if rng.chance(1, 2) {
+                t.b.u16(1);
+                t.off16(T::of(cov_hit(rng, k)));
+                t.b.i16(*rng.pick(&[1i16, -1, 3, 30, -30, i16::MAX, i16::MIN]));
+            } else {
+                t.b.u16(2);
+                t.off16(T::of(cov_hit(rng, k)));
+                let n = rng.below(k.uni as u64 + 2) as u16;
+                t.b.f16(n);
+                glyph_seq(rng, k.uni + 6, &mut t.b, n);
+            }
+            t
+        }
+        2 | 3 => {
+            t.b.u16(1);
+            t.off16(T::of(cov_hit(rng, k)));
+            let n = rng.below(6) as u16;
+            t.b.f16(n);
+            for _ in 0..n {
+                let mut s = T::new();
+                // sometimes a substitution that produces many glyphs
+                let m = if rng.chance(1, 8) { 100 + rng.below(300) as u16 } else { rng.below(4) as u16 };
+                s.b.f16(m);
+                for j in 0..m {
+                    s.b.u16(if m > 50 { 1000 + j * 7 } else { rng.below(k.uni as u64 + 10) as u16 });
+                }
+                t.off16(s);
+            }
+            t
+        }
+        4 => {
+            t.b.u16(1);
+            t.off16(T::of(cov_hit(rng, k)));
+            let n = rng.below(5) as u16;
+            t.b.f16(n);
+            for _ in 0..n {
+                let mut set = T::new();
+                let m = rng.below(3) as u16;
+                set.b.f16(m);
+                for _ in 0..m {
+                    let mut lig = T::new();
+                    lig.b.u16(rng.below(k.uni as u64 + 20) as u16);
+                    let cc = rng.below(4) as u16;
+                    lig.b.f16(cc);
+                    glyph_seq(rng, k.uni, &mut lig.b, cc.saturating_sub(1));
+                    set.off16(lig);
+                }
+                t.off16(set);
+            }
+            t
+        }
+        5 => closure_context(rng, k, false),
+        6 => closure_context(rng, k, true),
+        8 => {
+            t.b.u16(1);
+            t.off16(T::of(cov_hit(rng, k)));
+            for _ in 0..2 {
+                let n = rng.below(2) as u16;
+                t.b.f16(n);
+                for _ in 0..n {
+                    t.off16(T::of(cov_hit(rng, k)));
+                }
+            }
+            let n = rng.below(k.uni as u64) as u16;
+            t.b.f16(n);
+            glyph_seq(rng, k.uni + 8, &mut t.b, n);
+            t
+        }
+        _ => gsub_subtable(rng, ty, k),
+    }
+}
+
+fn closure_lookup(rng: &mut Rng, k: &Lk, _reg: bool) -> T {
+    let hostile = k.seq_den != u64::MAX;
+    let ty = if hostile { *rng.pick(&[1u16, 1, 2, 3, 4, 5, 5, 5, 6, 6, 6, 8, 7, 7, 0]) } else { *rng.pick(&[1u16, 1, 2, 3, 4, 5, 5, 5, 6, 6, 6, 8, 7, 7]) };
+    let n = 1 + rng.below(2) as usize;
+    if ty == 7 {
+        let ext_ty = if hostile { *rng.pick(&[1u16, 2, 4, 5, 5, 6, 6, 8, 7]) } else { *rng.pick(&[1u16, 2, 3, 4, 5, 5, 6, 6, 8]) };
+        let subs: Vec<T> = (0..n)
+            .map(|_| {
+                let inner = closure_subtable(rng, ext_ty, k);
+                extension(ext_ty, inner)
+            })
+            .collect();
+        lookup(rng, 7, subs, false)
+    } else {
+        let subs: Vec<T> = (0..n).map(|_| closure_subtable(rng, ty, k)).collect();
+        lookup(rng, ty, subs, false)
+    }
+}
+
+/// GSUB whose features reach every lookup (and one index beyond the list)
+fn closure_gsub(rng: &mut Rng, k: &Lk) -> B {
+    let mut t = T::new();
+    let v11 = rng.chance(1, 3);
+    t.b.u16(1).u16(if v11 { 1 } else { 0 });
+    let (sl, _) = script_list(rng, 2, true);
+    t.off16(sl);
+    let mut fl = T::new();
+    fl.b.f16(2);
+    for (i, tg) in [b"calt", b"liga"].iter().enumerate() {
+        fl.b.u32(tag32(tg));
+        let mut f = T::new();
+        f.b.u16(0);
+        let ids: Vec<u16> = if i == 0 {
+            (0..k.n_lookups).collect()
+        } else if k.seq_den != u64::MAX && rng.chance(1, 2) {
+            vec![k.n_lookups]
+        } else {
+            vec![rng.below(k.n_lookups as u64) as u16]
+        };
+        f.b.f16(ids.len() as u16);
+        for ix in ids {
+            f.b.f16(ix);
+        }
+        fl.off16(f);
+    }
+    t.off16(fl);
+    let mut ll = T::new();
+    ll.b.f16(k.n_lookups);
+    for _ in 0..k.n_lookups {
+        let l = closure_lookup(rng, k, false);
+        ll.off16(l);
+    }
+    t.off16(ll);
+    if v11 {
+        let fv = if k.seq_den != u64::MAX {
+            feature_variations(rng, 2, k.n_lookups)
+        } else {
+            // one record, no conditions, one alternate feature with valid lookup indices
+            let mut fv = T::new();
+            fv.b.u16(1).u16(0).f32(1).f32(0);
+            let mut fs = T::new();
+            fs.b.u16(1).u16(0).f16(1).f16(0);
+            let mut f = T::new();
+            f.b.u16(0).f16(1).f16(rng.below(k.n_lookups as u64) as u16);
+            fs.off32(f);
+            fv.off32(fs);
+            fv
+        };
+        t.off32(fv);
+    }
+    t.flat()
+}
+
+fn g16set(r: std::ops::RangeInclusive<u16>) -> IntSet<GlyphId16> {
+    let mut s = IntSet::empty();
+    s.insert_range(GlyphId16::new(*r.start())..=GlyphId16::new(*r.end()));
+    s
+}
+
+fn walk_closure_sets(sets: Vec<IntSet<GlyphId16>>) -> impl Fn(&[u8], &mut Obs) {
+    move |bytes: &[u8], o: &mut Obs| {
+        let Ok(gsub) = Gsub::read(FontData::new(bytes)) else {
+            o.note(0);
+            return;
+        };
+        for s in &sets {
+            let r = gsub.closure_glyphs(s.clone());
+            if o.res(&r) {
+                let out = r.unwrap();
+                o.note(out.len());
+                o.drain("closure_glyphs", 0x1_0001, out.iter(), |o, g| o.note(g.to_u16() as u64));
+            }
+        }
+    }
+}
+
+fn tagset(tags: &[&[u8; 4]]) -> IntSet<Tag> {
+    tags.iter().map(|t| Tag::new(t)).collect()
+}
+
+fn walk_collect_features(bytes: &[u8], o: &mut Obs) {
+    let scripts = [tagset(&SCRIPT_TAGS), IntSet::all(), IntSet::empty(), tagset(&[b"DFLT", b"qqqq"]), {
+        let mut s: IntSet<Tag> = IntSet::all();
+        s.remove(Tag::new(b"latn"));
+        s
+    }];
+    let langs = [IntSet::all(), tagset(&LANG_TAGS), IntSet::empty()];
+    let feats = [IntSet::all(), tagset(&[b"liga", b"kern", b"ss01"]), IntSet::empty()];
+    let run = |o: &mut Obs, n_features: usize, f: &dyn Fn(&IntSet<Tag>, &IntSet<Tag>, &IntSet<Tag>) -> Result<IntSet<u16>, read_fonts::ReadError>| {
+        for (i, s) in scripts.iter().enumerate() {
+            for (j, l) in langs.iter().enumerate() {
+                // all feature sets with the first script / language sets, the first otherwise
+                for ft in feats.iter().take(if i + j == 0 { 3 } else { 1 + (i + j) % 2 }) {
+                    let r = f(s, l, ft);
+                    if o.res(&r) {
+                        o.drain("collect_features", n_features + 1, r.unwrap().iter(), |o, ix| o.note(ix as u64));
+                    }
+                }
+            }
+        }
+    };
+    if let Ok(gsub) = Gsub::read(FontData::new(bytes)) {
+        let n = gsub.feature_list().map(|f| f.feature_count() as usize).unwrap_or(0);
+        run(o, n, &|s, l, f| gsub.collect_features(s, l, f));
+    }
+    if let Ok(gp) = Gpos::read(FontData::new(bytes)) {
+        let n = gp.feature_list().map(|f| f.feature_count() as usize).unwrap_or(0);
+        run(o, n, &|s, l, f| gp.collect_features(s, l, f));
+    }
+}
+
+/// script / feature list heavy table (no lookups)
+fn collect_table(rng: &mut Rng, many: bool) -> B {
+    let n_features = if many { 8 + rng.below(8) as u16 } else { rng.below(5) as u16 };
+    let mut t = T::new();
+    t.b.u16(1).u16(0);
+    let sorted = rng.chance(2, 3);
+    let (mut sl, _) = script_list(rng, n_features, sorted);
+    if many {
+        // many script records sharing few script tables: the visited sets
+        sl = T::new();
+        let n = 20 + rng.below(30) as u16;
+        sl.b.f16(n);
+        let shared = script(rng, n_features, true).flat();
+        for i in 0..n {
+            sl.b.u32(0x6100_0000 + i as u32);
+            sl.b.f16(2 + 6 * n);
+        }
+        sl.b.append(&shared);
+    }
+    t.off16(sl);
+    let (fl, _) = feature_list(rng, n_features, 0);
+    t.off16(fl);
+    let mut ll = T::new();
+    ll.b.f16(0);
+    t.off16(ll);
+    t.flat()
+}
+
+/// more scripts / language systems / feature indices than MAX_SCRIPTS (500), MAX_LANGSYS (2000),
+/// MAX_FEATURE_INDICES (1500); the second language system pushes the u16 feature index counter over
+/// 0xFFFF
+fn collect_limits_table() -> Vec<u8> {
+    let mut b = B::new();
+    b.u16(1).u16(0).u16(0).u16(10).u16(0);
+    // FeatureList @10: 3 features without lookups
+    b.u16(3);
+    for (i, t) in [b"calt", b"kern", b"liga"].iter().enumerate() {
+        b.tag(t).u16(20 + 4 * i as u16);
+    }
+    for _ in 0..3 {
+        b.u16(0).u16(0);
+    }
+    let sl_at = b.len();
+    b.set16(4, sl_at as u16);
+    let n_scripts = 600u16;
+    let n_langs = 2100u16;
+    let s0 = 2 + 6 * n_scripts as usize;
+    let s0_len = 4 + 6 * n_langs as usize;
+    let l0_len = 6 + 2 * 1000;
+    let s1 = s0 + s0_len + l0_len;
+    b.u16(n_scripts);
+    for i in 0..n_scripts {
+        b.u32(0x6161_0000 + i as u32).u16(if i == 1 { s1 as u16 } else { s0 as u16 });
+    }
+    // S0: default + 2100 records, all the same LangSys L0 (1000 feature indices)
+    b.u16(s0_len as u16).u16(n_langs);
+    for i in 0..n_langs {
+        b.u32(0x4100_0000 + i as u32).u16(s0_len as u16);
+    }
+    b.u16(0).u16(0xFFFF).u16(1000);
+    for _ in 0..1000u16 {
+        b.u16(3); // beyond the feature list: the filter set stays non empty
+    }
+    // S1: default LangSys L1 with 65000 feature indices
+    b.u16(4).u16(0);
+    b.u16(0).u16(1).u16(65000);
+    for i in 0..65000u16 {
+        b.u16(i % 3);
+    }
+    b.v
+}
+
+/// smallest GSUB with a contextual rule whose lookup record has sequence_index 1 but no input glyphs
+fn min_context_gsub(fmt2: bool) -> Vec<u8> {
+    let mut t = T::new();
+    t.b.u16(1).u16(0);
+    let mut sl = T::new();
+    sl.b.u16(0);
+    t.off16(sl);
+    let mut fl = T::new();
+    fl.b.u16(1).u32(tag32(b"calt"));
+    let mut f = T::new();
+    f.b.u16(0).u16(1).u16(0);
+    fl.off16(f);
+    t.off16(fl);
+    let mut ll = T::new();
+    ll.b.u16(1);
+    let mut l = T::new();
+    l.b.u16(5).u16(0).u16(1);
+    let mut st = T::new();
+    st.b.u16(if fmt2 { 2 } else { 1 });
+    st.off16(T::of(cov1(&[0], false)));
+    if fmt2 {
+        st.off16(T::of(class1(0, &[0], false)));
+    }
+    st.b.u16(1);
+    let mut set = T::new();
+    set.b.u16(1);
+    let mut rule = T::new();
+    rule.b.u16(1).u16(1).u16(1).u16(0);
+    set.off16(rule);
+    st.off16(set);
+    l.off16(st);
+    ll.off16(l);
+    t.off16(ll);
+    t.flat().v
+}
+
+pub fn run_closure(ctx: &mut Ctx) {
+    let k = if ctx.thorough { 6 } else { 1 };
+    let f = walk_closure_sets(vec![g16set(0..=0)]);
+    probe(ctx, "gsub.closure.context1.sequence-index", &min_context_gsub(false), &f);
+    probe(ctx, "gsub.closure.context2.sequence-index", &min_context_gsub(true), &f);
+    for round in 0..36 * k {
+        let uni = *ctx.rng.pick(&[8u32, 16, 24]);
+        let lk = Lk { uni, n_lookups: 2 + ctx.rng.below(3) as u16, n_classes: 2, seq_den: if round % 4 == 0 { 30 } else { u64::MAX } };
+        let b = closure_gsub(&mut ctx.rng, &lk);
+        ctx.count_n("gsub.bytes", b.len() as u64);
+        ctx.count_n("gsub.fields", b.fields.len() as u64);
+        let mut sets = vec![g16set(0..=(uni as u16 - 1)), [GlyphId16::new(0), GlyphId16::new(2), GlyphId16::new(uni as u16 / 2)].into_iter().collect()];
+        if round % 4 == 0 {
+            sets.push(IntSet::empty());
+        }
+        let f = walk_closure_sets(sets);
+        // deterministic cost proxy: a closure that reaches many glyphs is expensive per call, so only
+        // every 4th field of such a base is swept
+        let reached = Gsub::read(FontData::new(&b.v)).ok().and_then(|g| catch(|| g.closure_glyphs(g16set(0..=(uni as u16 - 1))).map(|s| s.len()).unwrap_or(0)).ok()).unwrap_or(0);
+        let mut b = b;
+        if reached > 0 {
+            ctx.count("gsub.closure-ok");
+        }
+        if reached > 100 {
+            ctx.count("gsub.thinned");
+            let mut i = 0;
+            b.fields.retain(|_| {
+                i += 1;
+                i % 4 == 0
+            });
+        }
+        ctx.drive("closure_glyphs", &b, &f);
+        // the unmodified table with the full glyph space and single glyphs
+        let mut more = vec![g16set(0..=0xFFFF), g16set(0xFFF0..=0xFFFF)];
+        for g in 0..uni.min(6) as u16 {
+            more.push([GlyphId16::new(g)].into_iter().collect());
+        }
+        let f = walk_closure_sets(more);
+        ctx.call("closure_glyphs.full", &b.v, &f);
+    }
+    // collect_features
+    for round in 0..30 * k {
+        let b = collect_table(&mut ctx.rng, round % 5 == 4);
+        ctx.drive("collect_features", &b, &walk_collect_features);
+    }
+    ctx.call("collect_features.limits", &collect_limits_table(), &walk_collect_features);
+    let f = walk_closure_sets(vec![g16set(0..=40)]);
+    ctx.drive_random("closure_glyphs", 300 * k, 96, &f);
+    ctx.drive_random("collect_features", 300 * k, 64, &walk_collect_features);
+}
+
+// ------------------------------------------------------------------------------------------------
+// group colr: colr.rs, colr/closure.rs
+
+struct PaintEnv {
+    n_layers: u32,
+    base_gids: Vec<u16>,
+}
+
+fn var_base(rng: &mut Rng) -> u32 {
+    match rng.below(40) {
+        0 | 4 | 5 => 0xFFFF_FFFF,
+        1 => 0xFFFF_FFFE,
+        2 => 0xFFFF_FFFF - rng.below(8) as u32,
+        3 => 0,
+        _ => rng.below(200) as u32,
+    }
+}
+
+fn color_line(rng: &mut Rng, var: bool) -> T {
+    let mut t = T::new();
+    t.b.u8(*rng.pick(&[0u8, 1, 2, 3, 0xFF]));
+    let n = rng.below(4) as u16;
+    t.b.f16(n);
+    for _ in 0..n {
+        t.b.u16(rng.next() as u16).u16(*rng.pick(&[0u16, 1, 2, 0xFFFF])).u16(0x4000);
+        if var {
+            t.b.f32(var_base(rng));
+        }
+    }
+    t
+}
+
+fn words(rng: &mut Rng, b: &mut B, n: usize) {
+    for _ in 0..n {
+        b.u16(rng.next() as u16);
+    }
+}
+
+/// one paint of format `fmt` (children generated recursively, depth limited)
+fn paint_fmt(rng: &mut Rng, fmt: u8, depth: u32, env: &PaintEnv) -> T {
+    let mut t = T::new();
+    t.b.u8(fmt);
+    let child = |rng: &mut Rng| -> T {
+        if depth >= 5 {
+            paint_fmt(rng, 2, depth + 1, env)
+        } else {
+            paint(rng, depth + 1, env)
+        }
+    };
+    let var = fmt % 2 == 1 && fmt >= 3;
+    match fmt {
+        1 => {
+            let n = rng.below(4) as u8;
+            let first = match rng.below(30) {
+                0 => 0xFFFF_FFFF,
+                1 => 0xFFFF_FFFF - rng.below(4) as u32,
+                2 | 3 | 4 => env.n_layers,
+                _ => rng.below(env.n_layers as u64 + 1) as u32,
+            };
+            t.b.f8(if rng.chance(1, 10) { 255 } else { n }).f32(first);
+        }
+        2 | 3 => {
+            t.b.u16(*rng.pick(&[0u16, 1, 5, 0xFFFF])).u16(0x4000);
+        }
+        4 | 5 | 6 | 7 => {
+            t.off24(color_line(rng, var));
+            words(rng, &mut t.b, 6);
+        }
+        8 | 9 => {
+            t.off24(color_line(rng, var));
+            words(rng, &mut t.b, 4);
+        }
+        10 => {
+            let c = child(rng);
+            t.off24(c);
+            t.b.u16(rng.below(60) as u16);
+        }
+        11 => {
+            // PaintColrGlyph: mostly an existing base glyph (cycles included)
+            let g = if env.base_gids.is_empty() || rng.chance(1, 5) { rng.below(60) as u16 } else { *rng.pick(&env.base_gids) };
+            t.b.f16(g);
+        }
+        12 | 13 => {
+            let c = child(rng);
+            t.off24(c);
+            let mut aff = T::new();
+            words(rng, &mut aff.b, 12);
+            if var {
+                aff.b.f32(var_base(rng));
+            }
+            t.off24(aff);
+            return t;
+        }
+        32 => {
+            let c = child(rng);
+            t.off24(c);
+            t.b.u8(rng.below(30) as u8);
+            let c = child(rng);
+            t.off24(c);
+        }
+        14..=31 => {
+            let c = child(rng);
+            t.off24(c);
+            let n = match fmt {
+                14 | 15 | 16 | 17 | 28 | 29 => 2,
+                18 | 19 | 30 | 31 => 4,
+                20 | 21 | 24 | 25 => 1,
+                _ => 3,
+            };
+            words(rng, &mut t.b, n);
+        }
+        _ => {
+            t.b.bytes(&rng.bytes(6));
+        }
+    }
+    if var {
+        t.b.f32(var_base(rng));
+    }
+    t
+}
+
+fn paint(rng: &mut Rng, depth: u32, env: &PaintEnv) -> T {
+    let fmt = match rng.below(12) {
+        0 => 0,
+        1 => 33 + rng.below(3) as u8,
+        2 | 3 => 1,
+        4 | 5 => 11,
+        6 => 10,
+        7 => 32,
+        _ => 1 + rng.below(32) as u8,
+    };
+    paint_fmt(rng, fmt, depth, env)
+}
+
+struct ColrSpec {
+    version: u16,
+    sorted: bool,
+}
+
+fn colr_table(rng: &mut Rng, spec: &ColrSpec) -> B {
+    let mut t = T::new();
+    t.b.f16(spec.version);
+    // v0 records
+    let nb = rng.below(5) as u16;
+    let nl = rng.below(6) as u16;
+    let mut gids: Vec<u16> = (0..nb).map(|_| rng.below(40) as u16).collect();
+    if spec.sorted {
+        gids.sort();
+        gids.dedup();
+    }
+    t.b.f16(gids.len() as u16);
+    if gids.is_empty() && rng.chance(1, 2) {
+        t.b.f32(0);
+    } else {
+        let mut r = T::new();
+        for g in &gids {
+            // first_layer_index + num_layers around the layer count / 0xFFFF
+            let first = match rng.below(6) {
+                0 => 0xFFFF,
+                1 => nl,
+                _ => rng.below(nl as u64 + 1) as u16,
+            };
+            let num = match rng.below(6) {
+                0 => 0xFFFF,
+                1 => nl + 1,
+                _ => rng.below(nl as u64 + 1) as u16,
+            };
+            r.b.f16(*g).f16(first).f16(num);
+        }
+        t.off32(r);
+    }
+    if nl == 0 && rng.chance(1, 2) {
+        t.b.f32(0);
+    } else {
+        let mut r = T::new();
+        for _ in 0..nl {
+            r.b.u16(rng.below(60) as u16).u16(*rng.pick(&[0u16, 1, 2, 0xFFFF]));
+        }
+        t.off32(r);
+    }
+    t.b.f16(nl);
+    if spec.version == 0 {
+        return t.flat();
+    }
+    // v1
+    let n_paint_glyphs = rng.below(5) as u32;
+    let mut pg: Vec<u16> = (0..n_paint_glyphs).map(|_| rng.below(40) as u16).collect();
+    if spec.sorted {
+        pg.sort();
+        pg.dedup();
+    }
+    let n_layers = rng.below(5) as u32;
+    let env = PaintEnv { n_layers, base_gids: pg.clone() };
+    if pg.is_empty() && rng.chance(1, 2) {
+        t.b.f32(0);
+    } else {
+        let mut bl = T::new();
+        bl.b.f32(pg.len() as u32);
+        for g in &pg {
+            bl.b.f16(*g);
+            let p = paint(rng, 0, &env);
+            bl.off32(p);
+        }
+        t.off32(bl);
+    }
+    if n_layers == 0 && rng.chance(1, 2) {
+        t.b.f32(0);
+    } else {
+        let mut ll = T::new();
+        ll.b.f32(n_layers);
+        for _ in 0..n_layers {
+            let p = paint(rng, 1, &env);
+            ll.off32(p);
+        }
+        t.off32(ll);
+    }
+    if rng.chance(1, 4) {
+        t.b.f32(0);
+    } else {
+        let mut cl = T::new();
+        let mut ranges: Vec<(u16, u16)> = if spec.sorted {
+            sorted_ranges(rng, 60, 4)
+        } else {
+            (0..rng.below(4))
+                .map(|_| {
+                    let s = rng.below(40) as u16;
+                    (s, if rng.chance(1, 3) { s.saturating_sub(2) } else { s + rng.below(5) as u16 })
+                })
+                .collect()
+        };
+        if rng.chance(1, 8) {
+            ranges.push((0xFFF0, 0xFFFF));
+        }
+        cl.b.u8(1).f32(ranges.len() as u32);
+        for (s, e) in ranges {
+            cl.b.f16(s).f16(e);
+            let mut cb = T::new();
+            let f = *rng.pick(&[1u8, 2, 2, 0, 3]);
+            cb.b.u8(f);
+            words(rng, &mut cb.b, 4);
+            if f == 2 {
+                cb.b.f32(var_base(rng));
+            }
+            cl.off24(cb);
+        }
+        t.off32(cl);
+    }
+    // var index map / item variation store: null or a few bytes
+    for _ in 0..2 {
+        if rng.chance(2, 3) {
+            t.b.f32(0);
+        } else {
+            let mut g = T::new();
+            g.b.bytes(&rng.bytes(10));
+            t.off32(g);
+        }
+    }
+    t.flat()
+}
+
+/// COLR v1 header + BaseGlyphList whose records point at `paints` bytes (absolute positions given
+/// relative to the start of `paints`)
+fn colr_v1_raw(records: &[(u16, u32)], layers: &[u32], paints: &[u8]) -> Vec<u8> {
+    let mut b = B::new();
+    b.u16(1).u16(0).u32(0).u32(0).u16(0);
+    let hdr = 34u32;
+    let bl_len = 4 + 6 * records.len() as u32;
+    let ll_len = 4 + 4 * layers.len() as u32;
+    b.u32(hdr).u32(hdr + bl_len).u32(0).u32(0).u32(0);
+    // BaseGlyphList
+    b.u32(records.len() as u32);
+    for (g, at) in records {
+        b.u16(*g).u32(bl_len + ll_len + at);
+    }
+    // LayerList
+    b.u32(layers.len() as u32);
+    for at in layers {
+        b.u32(ll_len + at);
+    }
+    b.bytes(paints);
+    b.v
+}
+
+/// chain of `depth` PaintRotate tables ending in a PaintSolid
+fn deep_chain(depth: usize) -> Vec<u8> {
+    let mut p = Vec::with_capacity(depth * 6 + 5);
+    for _ in 0..depth {
+        p.extend_from_slice(&[24, 0, 0, 6, 0x10, 0]);
+    }
+    p.extend_from_slice(&[2, 0, 1, 0x40, 0]);
+    p
+}
+
+fn paint_digest(o: &mut Obs, p: &read_fonts::tables::colr::Paint) {
+    o.note(p.format() as u64);
+    o.note(p.offset_data().len() as u64);
+}
+
+fn colr_gids(colr: &Colr) -> Vec<u32> {
+    let mut vals: Vec<u32> = vec![];
+    if let Some(Ok(recs)) = colr.base_glyph_records() {
+        vals.extend(recs.iter().take(5).map(|r| r.glyph_id().to_u16() as u32));
+        vals.extend(recs.last().map(|r| r.glyph_id().to_u16() as u32));
+    }
+    if let Some(Ok(bl)) = colr.base_glyph_list() {
+        let recs = bl.base_glyph_paint_records();
+        vals.extend(recs.iter().take(5).map(|r| r.glyph_id().to_u16() as u32));
+        vals.extend(recs.last().map(|r| r.glyph_id().to_u16() as u32));
+    }
+    if let Some(Ok(cl)) = colr.clip_list() {
+        for c in cl.clips().iter().take(4) {
+            vals.push(c.start_glyph_id().to_u16() as u32);
+            vals.push(c.end_glyph_id().to_u16() as u32);
+        }
+    }
+    vals
+}
+
+fn drain_set<D: read_fonts::collections::int_set::Domain>(o: &mut Obs, name: &str, cap: usize, s: &IntSet<D>, f: impl Fn(D) -> u64) {
+    o.note(s.len());
+    o.drain(name, cap, s.iter(), |o, x| o.note(f(x)));
+}
+
+fn walk_colr_closures(colr: &Colr, len: usize, set: &IntSet<GlyphId>, o: &mut Obs) {
+    let n = set.len() as usize;
+    let mut out = IntSet::empty();
+    colr.v0_closure_glyphs(set, &mut out);
+    drain_set(o, "v0_closure_glyphs", n + len / 4 + 1, &out, |g| g.to_u32() as u64);
+    let mut pal = IntSet::empty();
+    colr.v0_closure_palette_indices(set, &mut pal);
+    drain_set(o, "v0_closure_palette_indices", len / 4 + 1, &pal, |p| p as u64);
+    let mut gs = set.clone();
+    let (mut layers, mut pal, mut vars) = (IntSet::<u32>::empty(), IntSet::<u16>::empty(), IntSet::<u32>::empty());
+    colr.v1_closure(&mut gs, &mut layers, &mut pal, &mut vars);
+    drain_set(o, "v1_closure.glyphs", n + len / 2 + 1, &gs, |g| g.to_u32() as u64);
+    drain_set(o, "v1_closure.layers", 255 * (len / 6 + 1), &layers, |x| x as u64);
+    drain_set(o, "v1_closure.palette", len / 2 + 1, &pal, |x| x as u64);
+    drain_set(o, "v1_closure.variations", 2 * len + 1, &vars, |x| x as u64);
+}
+
+fn walk_colr(bytes: &[u8], o: &mut Obs) {
+    let Ok(colr) = Colr::read(FontData::new(bytes)) else {
+        o.note(0);
+        return;
+    };
+    let len = bytes.len();
+    let vals = colr_gids(&colr);
+    let mut gids: Vec<u32> = edge16(&vals).into_iter().map(|g| g as u32).collect();
+    gids.extend([0x1_0000, u32::MAX]);
+    for g in &gids {
+        let gid = GlyphId::new(*g);
+        let r = colr.v0_base_glyph(gid);
+        if o.res(&r) {
+            if let Some(range) = r.unwrap() {
+                o.note(range.start as u64);
+                o.note(range.end as u64);
+                for i in [range.start, range.end.wrapping_sub(1), range.end] {
+                    let l = colr.v0_layer(i);
+                    if o.res(&l) {
+                        let (g, p) = l.unwrap();
+                        o.note(((g.to_u16() as u64) << 16) | p as u64);
+                    }
+                }
+            }
+        }
+        let r = colr.v1_base_glyph(gid);
+        if o.res(&r) {
+            if let Some((p, _id)) = r.unwrap() {
+                paint_digest(o, &p);
+            }
+        }
+        let r = colr.v1_clip_box(gid);
+        if o.res(&r) {
+            if let Some(cb) = r.unwrap() {
+                o.note(cb.format() as u64);
+            }
+        }
+    }
+    let n0 = colr.num_layer_records() as usize;
+    let n1 = match colr.layer_list() {
+        Some(Ok(ll)) => ll.num_layers() as usize,
+        _ => 0,
+    };
+    let mut ids = edge_usize(&[n0, n1]);
+    ids.extend(0..n1.min(6));
+    for i in ids {
+        o.res(&colr.v0_layer(i));
+        let r = colr.v1_layer(i);
+        if o.res(&r) {
+            paint_digest(o, &r.unwrap().0);
+        }
+    }
+    // closures over small glyph sets around the table's glyphs
+    let few: Vec<u32> = vals.iter().take(4).copied().collect();
+    walk_colr_closures(&colr, len, &gset(&few), o);
+    // all small glyphs, unless the v0 records announce a huge number of (absent) layers
+    let work: usize = match colr.base_glyph_records() {
+        Some(Ok(recs)) => recs.iter().map(|r| r.num_layers() as usize).sum(),
+        _ => 0,
+    };
+    if work <= 20_000 {
+        let mut all_small = IntSet::empty();
+        all_small.insert_range(GlyphId::new(0)..=GlyphId::new(63));
+        all_small.insert(GlyphId::new(0x1_0000));
+        walk_colr_closures(&colr, len, &all_small, o);
+    }
+}
+
+/// closures only, with a given glyph set (large inputs)
+fn walk_colr_closure_only(bytes: &[u8], o: &mut Obs) {
+    let Ok(colr) = Colr::read(FontData::new(bytes)) else { return };
+    let mut s = IntSet::empty();
+    s.insert_range(GlyphId::new(0)..=GlyphId::new(0xFFFF));
+    walk_colr_closures(&colr, bytes.len(), &s, o);
+    for g in [0u32, 1, 2] {
+        let r = colr.v1_base_glyph(GlyphId::new(g));
+        if let Ok(Some((p, _))) = r {
+            paint_digest(o, &p);
+        }
+    }
+}
+
+fn colr_model(ctx: &mut Ctx) {
+    // sorted v0 records + sorted clip ranges: the binary searches against a linear model
+    let rng = &mut ctx.rng;
+    let ng = 1 + rng.below(7) as usize;
+    let gids = sorted_glyphs(rng, 60, ng);
+    let recs: Vec<(u16, u16, u16)> = gids.iter().map(|g| (*g, rng.below(9) as u16, rng.below(5) as u16)).collect();
+    let clips = sorted_ranges(rng, 80, 5);
+    let np = 1 + rng.below(5) as usize;
+    let pg = sorted_glyphs(rng, 60, np);
+    let mut t = T::new();
+    t.b.u16(1).u16(recs.len() as u16);
+    let mut r = T::new();
+    for (g, f, n) in &recs {
+        r.b.u16(*g).u16(*f).u16(*n);
+    }
+    t.off32(r);
+    let mut l = T::new();
+    for i in 0..12u16 {
+        l.b.u16(100 + i).u16(i);
+    }
+    t.off32(l);
+    t.b.u16(12);
+    let mut bl = T::new();
+    bl.b.u32(pg.len() as u32);
+    for (i, g) in pg.iter().enumerate() {
+        bl.b.u16(*g);
+        let mut p = T::new();
+        p.b.u8(2).u16(i as u16).u16(0x4000);
+        bl.off32(p);
+    }
+    t.off32(bl);
+    t.b.u32(0);
+    let mut cl = T::new();
+    cl.b.u8(1).u32(clips.len() as u32);
+    for (i, (s, e)) in clips.iter().enumerate() {
+        cl.b.u16(*s).u16(*e);
+        let mut cb = T::new();
+        cb.b.u8(1).i16(i as i16).i16(0).i16(0).i16(0);
+        cl.off24(cb);
+    }
+    t.off32(cl);
+    t.b.u32(0).u32(0);
+    let b = t.flat();
+    let input = format!("colr-model {}", hex(&b.v));
+    model(ctx, "colr-model", input, || {
+        let colr = Colr::read(FontData::new(&b.v)).map_err(|e| format!("{e:?}"))?;
+        for g in 0..90u16 {
+            let want = recs.iter().find(|r| r.0 == g).map(|r| r.1 as usize..r.1 as usize + r.2 as usize);
+            let got = colr.v0_base_glyph(GlyphId::new(g as u32)).map_err(|e| format!("v0_base_glyph {e:?}"))?;
+            if got != want {
+                return Err(format!("v0_base_glyph({g}) = {got:?}, expected {want:?}"));
+            }
+            let want = clips.iter().position(|(s, e)| (*s..=*e).contains(&g));
+            let got = colr.v1_clip_box(GlyphId::new(g as u32)).map_err(|e| format!("v1_clip_box {e:?}"))?;
+            let got = got.map(|cb| match cb {
+                read_fonts::tables::colr::ClipBox::Format1(c) => c.x_min().to_i16() as usize,
+                _ => 999,
+            });
+            if got != want {
+                return Err(format!("v1_clip_box({g}) = {got:?}, expected {want:?}"));
+            }
+            let want = pg.iter().position(|x| *x == g);
+            let got = colr.v1_base_glyph(GlyphId::new(g as u32)).map_err(|e| format!("v1_base_glyph {e:?}"))?;
+            let got = got.map(|(p, _)| match p {
+                read_fonts::tables::colr::Paint::Solid(s) => s.palette_index() as usize,
+                _ => 999,
+            });
+            if got != want {
+                return Err(format!("v1_base_glyph({g}) = {got:?}, expected {want:?}"));
+            }
+        }
+        for i in 0..14usize {
+            let want = if i < 12 { Some((100 + i as u16, i as u16)) } else { None };
+            let got = colr.v0_layer(i).ok().map(|(g, p)| (g.to_u16(), p));
+            if got != want {
+                return Err(format!("v0_layer({i}) = {got:?}"));
+            }
+        }
+        // v0 closures: exactly the layers of the base glyphs in the set
+        let set: IntSet<GlyphId> = gids.iter().step_by(2).map(|g| GlyphId::new(*g as u32)).collect();
+        let mut out = IntSet::empty();
+        colr.v0_closure_glyphs(&set, &mut out);
+        let mut pal = IntSet::empty();
+        colr.v0_closure_palette_indices(&set, &mut pal);
+        let mut want_g: Vec<u32> = set.iter().map(|g| g.to_u32()).collect();
+        let mut want_p: Vec<u16> = vec![];
+        for (g, f, n) in &recs {
+            if set.contains(GlyphId::new(*g as u32)) {
+                for i in *f..*f + *n {
+                    if i < 12 {
+                        want_g.push(100 + i as u32);
+                        want_p.push(i);
+                    }
+                }
+            }
+        }
+        want_g.sort();
+        want_g.dedup();
+        want_p.sort();
+        want_p.dedup();
+        let got_g: Vec<u32> = out.iter().take(200).map(|g| g.to_u32()).collect();
+        let got_p: Vec<u16> = pal.iter().take(200).collect();
+        if got_g != want_g || got_p != want_p {
+            return Err(format!("v0 closure glyphs {got_g:?} / {want_g:?}, palette {got_p:?} / {want_p:?}"));
+        }
+        Ok(())
+    });
+}
+
+pub fn run_colr(ctx: &mut Ctx) {
+    let k = if ctx.thorough { 6 } else { 1 };
+    // PaintVarTranslate with var_index_base 0xFFFFFFFE (2 variation indices)
+    let v = colr_v1_raw(&[(0, 0)], &[0], &[15, 0, 0, 12, 0, 0, 0, 0, 0xFF, 0xFF, 0xFF, 0xFE, 2, 0, 1, 0x40, 0]);
+    probe(ctx, "colr.v1_closure.var-index-base", &v, &walk_colr_closure_only);
+    // PaintColrLayers with first_layer_index 0xFFFFFFFF
+    let v = colr_v1_raw(&[(0, 0)], &[0], &[1, 1, 0xFF, 0xFF, 0xFF, 0xFF]);
+    probe(ctx, "colr.v1_closure.first-layer-index", &v, &walk_colr_closure_only);
+    for round in 0..40 * k {
+        let spec = ColrSpec { version: if round % 4 == 0 { 0 } else { 1 }, sorted: round % 3 != 2 };
+        let b = colr_table(&mut ctx.rng, &spec);
+        ctx.count(&format!("version{}", spec.version));
+        ctx.count_n("bytes", b.len() as u64);
+        ctx.drive("colr", &b, &walk_colr);
+    }
+    // every paint format as the root paint of a base glyph and as a layer
+    for fmt in 0..=34u8 {
+        let env = PaintEnv { n_layers: 2, base_gids: vec![3, 5] };
+        let mut t = T::new();
+        t.b.u16(1).u16(0).u32(0).u32(0).u16(0);
+        let mut bl = T::new();
+        bl.b.f32(2);
+        for g in [3u16, 5] {
+            bl.b.u16(g);
+            let p = paint_fmt(&mut ctx.rng, fmt, 3, &env);
+            bl.off32(p);
+        }
+        t.off32(bl);
+        let mut ll = T::new();
+        ll.b.f32(2);
+        for _ in 0..2 {
+            let p = paint_fmt(&mut ctx.rng, fmt, 4, &env);
+            ll.off32(p);
+        }
+        t.off32(ll);
+        t.b.u32(0).u32(0).u32(0);
+        ctx.count(&format!("paint{fmt}"));
+        ctx.drive("colr.paint", &t.flat(), &walk_colr);
+    }
+    for _ in 0..150 * k {
+        colr_model(ctx);
+    }
+    // cycles: a base glyph painting itself, two glyphs painting each other, layers that contain
+    // their own PaintColrLayers
+    let mut p = vec![];
+    p.extend_from_slice(&[11, 0, 1]); // @0 ColrGlyph(1)
+    p.extend_from_slice(&[11, 0, 2]); // @3 ColrGlyph(2)
+    p.extend_from_slice(&[11, 0, 1]); // @6 ColrGlyph(1)
+    p.extend_from_slice(&[1, 2, 0, 0, 0, 0]); // @9 ColrLayers(2 layers from 0)
+    p.extend_from_slice(&[10, 0, 0, 6, 0, 9]); // @15 Glyph(paint @21, gid 9)
+    p.extend_from_slice(&[1, 255, 0, 0, 0, 0]); // @21 ColrLayers(255 layers from 0)
+    let cyc = colr_v1_raw(&[(1, 0), (2, 6), (3, 3), (4, 9)], &[9, 15], &p);
+    ctx.call("colr.cycle", &cyc, &walk_colr);
+    ctx.call("colr.cycle", &cyc, &walk_colr_closure_only);
+    // paint chains far deeper than any nesting limit (must not recurse per level)
+    for depth in [63usize, 64, 65, 66, 1000, 20_000, 120_000] {
+        let v = colr_v1_raw(&[(0, 0), (1, 6), (2, (6 * (depth.min(70) - 1)) as u32)], &[0], &deep_chain(depth));
+        ctx.count(&format!("chain{depth}"));
+        ctx.call("colr.chain", &v, &walk_colr_closure_only);
+    }
+    // wide: one PaintColrLayers per base glyph, all sharing 255 layers
+    {
+        let n = 400usize;
+        let mut p = vec![];
+        for _ in 0..n {
+            p.extend_from_slice(&[1, 255, 0, 0, 0, 0]);
+        }
+        p.extend_from_slice(&[2, 0, 1, 0x40, 0]);
+        let recs: Vec<(u16, u32)> = (0..n).map(|i| (i as u16, 6 * i as u32)).collect();
+        let layers: Vec<u32> = (0..255).map(|i| if i % 2 == 0 { 6 * n as u32 } else { 6 * (i as u32 % n as u32) }).collect();
+        ctx.call("colr.wide", &colr_v1_raw(&recs, &layers, &p), &walk_colr_closure_only);
+    }
+    // v0: many base glyphs with num_layers 0xFFFF over few layers
+    {
+        let mut b = B::new();
+        let n = 300u16;
+        b.u16(0).u16(n).u32(14).u32(14 + 6 * n as u32).u16(3);
+        for g in 0..n {
+            b.u16(g).u16(if g % 2 == 0 { 0 } else { 0xFFFF }).u16(0xFFFF);
+        }
+        for i in 0..3u16 {
+            b.u16(500 + i).u16(i);
+        }
+        ctx.call("colr.v0wide", &b.v, &walk_colr_closure_only);
+    }
+    ctx.drive_random("colr", 600 * k, 80, &walk_colr);
+}
